@@ -26,6 +26,36 @@ Normalisations performed here (trusted; they are also listed in the header of th
   * `return p;` of a pointer -> `ret 0` (addresses are public and not modelled)
   * reads of file-scope scalar variables read a variable of that name (0 unless assigned: static storage)
   * `volatile`, `const`, `static`, `inline` are ignored
+
+Extensions for the larger targets (field / scalar / group arithmetic, stream-cipher cores, hashes):
+  * STRUCTS are split per member: an object `s` of struct type with members `F : E[n]` / `G : E` becomes the arrays
+    `s.F` (n elements) and `s.G` (1 element); an array of structs `s[k]` (any number of dimensions) becomes `s.F` with
+    k*n elements; a pointer to a struct is (object, index in struct units); `p->F[i]` is `s.F[idx*n + i]`.  A struct
+    pointer PARAMETER `p` contributes the array parameters `p.F`, `p.G`, … (so members can be labelled individually,
+    e.g. the Public byte counter of a hash state next to its Secret chaining value).  Nested structs, unions,
+    pointer members and struct assignment are refused.
+  * MULTI-DIMENSIONAL arrays are flattened row-major; `a[i][j]` is `a[i*m + j]`.
+  * SUB-ARRAY / ALIASED ARGUMENTS.  MiniC passes whole arrays by copy-in / copy-out, which is only faithful when the
+    arguments are distinct whole arrays.  A call `f(a + o, …)` / `f(&s[k], …)` / `f(x, x)` is therefore translated to a
+    call of a CLONE of `f` named `f__<shape>`: the enclosing array is passed, the offset becomes an extra Public
+    scalar parameter `<param>__off` (every access `p[i]` in the clone is `a[p__off + i]`), and parameters that
+    receive the same array are MERGED into one array parameter (so a store through one is seen by a load through
+    the other, as in C).  The shape string lists, per pointer parameter, `o` (offset) / `n`, and per member array
+    `m<k>` (merged with array number k), `p` (the caller's array is labelled Public), `x` (nothing).
+  * pointers that are ADVANCED (`p += e`, `p++`, `p = p + e`, also parameters) carry an offset variable `p__off` /
+    `p`; comparing or subtracting two pointers into the same array compares / subtracts the offsets.
+  * `memcpy` / `memset` / `sodium_memzero` / `explicit_bzero` are inlined as element-wise loops over the (Public)
+    count (byte counts over wider elements must be constant multiples of the element size); `memcpy(&w, p, sizeof w)`
+    and `memcpy(p, &w, sizeof w)` for an integer variable `w` are the little-endian load / store of x86-64.
+  * `switch` becomes `do { if (matched | sel == K1) { matched = 1; … } … } while (0)` (fall-through, `break`).
+  * a call in the condition of an `if` is hoisted in front of the `if`; `a = b = e` and `(x op= e)` used as a value are
+    hoisted likewise (the value is the variable / lvalue re-read); a local declared again in another scope gets a
+    fresh name `x__2` (references are resolved through clang's declaration ids); enum constants are literals;
+    `__atomic_thread_fence` (ACQUIRE_FENCE) is a no-op.
+  * callees are also looked up in other source files (SEARCH_FILES); the indirect call through the file-scope function
+    pointer `blake2b_compress` is resolved to the reference implementation it is statically initialised with.
+  * the obligations of these targets are checked against ONE program per build configuration with the (untrusted,
+    `#eval`-computed) labels of the locals supplied as a literal: `checkFn` per function, `MiniC.soundness_ctx`.
 """
 import json, os, re, subprocess, sys
 
@@ -58,6 +88,13 @@ PINNED_VARIANTS = json.load(open(_PIN)) if os.path.exists(_PIN) else {}
 # ------------------------------------------------------------------------------------------------
 UTILS, CODECS, VERIFY = "sodium/utils.c", "sodium/codecs.c", "crypto_verify/verify.c"
 ED, FE51 = "crypto_core/ed25519/ref10/ed25519_ref10.c", "include/sodium/private/ed25519_ref10_fe_51.h"
+X25519 = "crypto_scalarmult/curve25519/ref10/x25519_ref10.c"
+CHACHA, SALSA = "crypto_stream/chacha20/ref/chacha20_ref.c", "crypto_core/salsa/ref/core_salsa_ref.c"
+HCHACHA, HSALSA = "crypto_core/hchacha20/core_hchacha20.c", "crypto_core/hsalsa20/ref2/core_hsalsa20_ref2.c"
+POLY = "crypto_onetimeauth/poly1305/donna/poly1305_donna.c"
+SHA512, SHA256 = "crypto_hash/sha512/cp/hash_sha512_cp.c", "crypto_hash/sha256/cp/hash_sha256_cp.c"
+B2C, B2 = "crypto_generichash/blake2b/ref/blake2b-compress-ref.c", "crypto_generichash/blake2b/ref/blake2b-ref.c"
+SIP = "crypto_shorthash/siphash24/ref/shorthash_siphash24_ref.c"
 TARGETS = [
     dict(file=UTILS, fn="sodium_memcmp", pub=["len"], pubarr=[], ret=False),
     dict(file=UTILS, fn="sodium_is_zero", pub=["nlen"], pubarr=[], ret=False),
@@ -84,62 +121,184 @@ TARGETS = [
     dict(file=ED, fn="negative", pub=[], pubarr=[], ret=False, asm=True),
     dict(file=ED, fn="fe25519_cmov", pub=[], pubarr=[], ret=True, asm=True),
     dict(file=ED, fn="fe25519_cswap", pub=[], pubarr=[], ret=True, asm=True),
+    # ---- field arithmetic (native: 51-bit limbs with unsigned __int128; portable: 25.5-bit limbs, 64-bit products)
+    dict(file=ED, fn="fe25519_0", pub=[], pubarr=[], ret=True, big=True, asm=True),
+    dict(file=ED, fn="fe25519_1", pub=[], pubarr=[], ret=True, big=True, asm=True),
+    dict(file=ED, fn="fe25519_add", pub=[], pubarr=[], ret=True, big=True, asm=True),
+    dict(file=ED, fn="fe25519_sub", pub=[], pubarr=[], ret=True, big=True, asm=True),
+    dict(file=ED, fn="fe25519_neg", pub=[], pubarr=[], ret=True, big=True, asm=True),
+    dict(file=ED, fn="fe25519_copy", pub=[], pubarr=[], ret=True, big=True, asm=True),
+    dict(file=ED, fn="fe25519_isnegative", pub=[], pubarr=[], ret=False, big=True, asm=True),
+    dict(file=ED, fn="fe25519_iszero", pub=[], pubarr=[], ret=False, big=True, asm=True),
+    dict(file=ED, fn="fe25519_mul", pub=[], pubarr=[], ret=True, big=True, asm=True),
+    dict(file=ED, fn="fe25519_sq", pub=[], pubarr=[], ret=True, big=True, asm=True),
+    dict(file=ED, fn="fe25519_sq2", pub=[], pubarr=[], ret=True, big=True, asm=True),
+    dict(file=ED, fn="fe25519_mul32", pub=[], pubarr=[], ret=True, big=True, asm=True),
+    dict(file=ED, fn="fe25519_frombytes", pub=[], pubarr=[], ret=True, big=True, asm=True),
+    dict(file=ED, fn="fe25519_tobytes", pub=[], pubarr=[], ret=True, big=True, asm=True),
+    dict(file=ED, fn="fe25519_invert", pub=[], pubarr=[], ret=True, big=True, asm=True),
+    dict(file=ED, fn="fe25519_pow22523", pub=[], pubarr=[], ret=True, big=True, asm=True),
+    # ---- X25519 ladder: Secret scalar n, Public point p (the early small-order rejection branches on p only), Secret output
+    dict(file=X25519, fn="crypto_scalarmult_curve25519_ref10", pub=[], pubarr=["p"], ret=True, big=True, asm=True),
+    # ---- scalar arithmetic mod L (everything Secret)
+    dict(file=ED, fn="sc25519_reduce", pub=[], pubarr=[], ret=True, big=True, asm=True),
+    dict(file=ED, fn="sc25519_muladd", pub=[], pubarr=[], ret=True, big=True, asm=True),
+    dict(file=ED, fn="sc25519_mul", pub=[], pubarr=[], ret=True, big=True, asm=True),
+    dict(file=ED, fn="sc25519_invert", pub=[], pubarr=[], ret=True, big=True, asm=True),
+    # ---- Edwards scalar multiplication: Secret scalar, Secret digit b, Public table position; the point p is labelled Secret as well
+    dict(file=ED, fn="ge25519_cmov8", pub=[], pubarr=[], ret=True, big=True, asm=True),
+    dict(file=ED, fn="ge25519_cmov8_base", pub=["pos"], pubarr=[], ret=True, big=True, asm=True),
+    dict(file=ED, fn="ge25519_cmov8_cached", pub=[], pubarr=[], ret=True, big=True, asm=True),
+    dict(file=ED, fn="ge25519_scalarmult_base", pub=[], pubarr=[], ret=True, big=True, asm=True),
+    dict(file=ED, fn="ge25519_scalarmult", pub=[], pubarr=[], ret=True, big=True, asm=True),
+    # ---- stream-cipher cores: key / input / constants Secret; number of rounds and NULL-ness of the constants pointer Public
+    # NOT COVERED: chacha20_encrypt_bytes (crypto_stream/chacha20/ref/chacha20_ref.c) — refused: its pointers `m`, `c` are re-assigned to a
+    # different array (`m = tmp; c = tmp;` for the last partial block), and its Public block counter lives in the same array `ctx->input`
+    # as the Secret key, which per-array labels cannot separate
+    dict(file=SALSA, fn="crypto_core_salsa", pub=["rounds", "c__isnull"], pubarr=[], ret=True, big=True, asm=True),
+    dict(file=HCHACHA, fn="crypto_core_hchacha20", pub=["c__isnull"], pubarr=[], ret=True, big=True, asm=True),
+    dict(file=HSALSA, fn="crypto_core_hsalsa20", pub=["c__isnull"], pubarr=[], ret=True, big=True, asm=True),
+    # ---- Poly1305 (donna64 natively, donna32 in the portable configuration): key-derived r / pad, accumulator h, buffered bytes and
+    #      message Secret; message length, number of buffered bytes and the `final` flag Public
+    dict(file=POLY, fn="poly1305_blocks", pub=["bytes"], pubarr=["st.leftover", "st.final"], ret=True, big=True, asm=True),
+    dict(file=POLY, fn="poly1305_finish", pub=[], pubarr=["st.leftover", "st.final"], ret=True, big=True, asm=True),
+    dict(file=POLY, fn="poly1305_update", pub=["bytes"], pubarr=["st.leftover", "st.final"], ret=True, big=True, asm=True),
+    # ---- SHA-2: chaining value, buffered block and message Secret; message length and the bit counter Public
+    dict(file=SHA512, fn="SHA512_Transform", pub=[], pubarr=[], ret=True, big=True, asm=True),
+    dict(file=SHA512, fn="crypto_hash_sha512_update", pub=["inlen"], pubarr=["state.count"], ret=True, big=True, asm=True),
+    dict(file=SHA512, fn="SHA512_Pad", pub=[], pubarr=["state.count"], ret=True, big=True, asm=True),
+    dict(file=SHA512, fn="crypto_hash_sha512_final", pub=[], pubarr=["state.count"], ret=True, big=True, asm=True),
+    dict(file=SHA256, fn="SHA256_Transform", pub=[], pubarr=[], ret=True, big=True, asm=True),
+    dict(file=SHA256, fn="crypto_hash_sha256_update", pub=["inlen"], pubarr=["state.count"], ret=True, big=True, asm=True),
+    dict(file=SHA256, fn="SHA256_Pad", pub=[], pubarr=["state.count"], ret=True, big=True, asm=True),
+    dict(file=SHA256, fn="crypto_hash_sha256_final", pub=[], pubarr=["state.count"], ret=True, big=True, asm=True),
+    # ---- BLAKE2b (reference compression function): chaining value, buffer, message (and key, absorbed as message) Secret;
+    #      byte counter t, finalisation flags f, buffer fill, last_node, lengths Public
+    dict(file=B2C, fn="blake2b_compress_ref", pub=[], pubarr=["S.t", "S.f", "S.buflen", "S.last_node"], ret=True, big=True, asm=True),
+    dict(file=B2, fn="blake2b_update", pub=["inlen"], pubarr=["S.t", "S.f", "S.buflen", "S.last_node"], ret=True, big=True, asm=True),
+    dict(file=B2, fn="blake2b_final", pub=["outlen"], pubarr=["S.t", "S.f", "S.buflen", "S.last_node"], ret=True, big=True, asm=True),
+    # ---- SipHash-2-4: key and message Secret, message length Public
+    dict(file=SIP, fn="crypto_shorthash_siphash24", pub=["inlen"], pubarr=[], ret=True, big=True, asm=True),
 ]
 # labels of helper functions that are only reached as callees of the targets
 CALLEE_SPECS = {
     "_sodium_dummy_symbol_to_prevent_memcmp_lto": dict(pub=["len"], pubarr=[], ret=True),
     "_sodium_dummy_symbol_to_prevent_compare_lto": dict(pub=["len"], pubarr=[], ret=True),
     "sodium_base64_check_variant": dict(pub=["variant"], pubarr=[], ret=True),
+    "fe25519_sqmul": dict(pub=["n"], pubarr=[], ret=True),
+    "blake2b_increment_counter": dict(pub=["inc"], pubarr=[], ret=True),      # the byte counter is advanced by a Public amount
+    "blake2b_is_lastblock": dict(pub=[], pubarr=[], ret=True), "blake2b_set_lastblock": dict(pub=[], pubarr=[], ret=True),
+    "blake2b_set_lastnode": dict(pub=[], pubarr=[], ret=True),
+    "be64dec_vect": dict(pub=["len"], pubarr=[], ret=True), "be64enc_vect": dict(pub=["len"], pubarr=[], ret=True),
+    "be32dec_vect": dict(pub=["len"], pubarr=[], ret=True), "be32enc_vect": dict(pub=["len"], pubarr=[], ret=True),
+    "has_small_order": dict(pub=[], pubarr=[], ret=True),     # only reached with a Public argument (clone has_small_order__np)
+    "sc25519_sqmul": dict(pub=["n"], pubarr=[], ret=True),
+    "rotl32": dict(pub=["b"], pubarr=[], ret=False), "rotr32": dict(pub=["b"], pubarr=[], ret=False),
+    "rotl64": dict(pub=["b"], pubarr=[], ret=False), "rotr64": dict(pub=["b"], pubarr=[], ret=False),
 }
 NORETURN = {"sodium_misuse", "abort", "__assert_fail", "exit"}
 
+# other files in which a callee without a body in the caller's file is looked up
+SEARCH_FILES = {
+    "fe25519_invert": [ED], "fe25519_pow22523": [ED], "fe25519_frombytes": [ED], "fe25519_tobytes": [ED],
+    "sodium_is_zero": [UTILS], "sodium_memcmp": [UTILS], "crypto_verify_32": [VERIFY], "crypto_verify_16": [VERIFY],
+    "ge25519_scalarmult_base": [ED], "ge25519_scalarmult": [ED], "sc25519_reduce": [ED], "sc25519_muladd": [ED],
+    "blake2b_compress_ref": [B2C],
+}
+# libc / libsodium memory primitives that are inlined as loops
+INTRINSICS = {"memcpy", "memmove", "memset", "sodium_memzero", "explicit_bzero", "__builtin_memcpy", "__builtin_memset"}
+# compiler barriers: no data effect, no memory access of their own
+NOOPS = {"__atomic_thread_fence", "__sync_synchronize", "__atomic_signal_fence"}
+# file-scope function pointers (run-time dispatch) -> the portable implementation they are statically initialised with
+FUNPTR_PINS = {"blake2b_compress": "blake2b_compress_ref"}
+
 # ------------------------------------------------------------------------------------------------
-# clang front end
+# clang front end: ONE full JSON AST dump per (file, configuration), indexed by name
 # ------------------------------------------------------------------------------------------------
 _AST_CACHE = {}
 EXTRA_INC = []      # include directories searched first (mutation self-test of headers: a scratch copy of include/sodium)
 
 
-def clang_ast(path, fn, variant, rel):
-    key = (path, fn, variant)
+class UnitAST:
+    def __init__(self, top):
+        self.funcs, self.globals, self.fields, self.recname, self.typedef_rec, self.enums = {}, {}, {}, {}, {}, {}
+        for o in top.get("inner", []):
+            k = o.get("kind")
+            if k == "EnumDecl":
+                nxt = 0
+                for c in o.get("inner", []):
+                    if c.get("kind") != "EnumConstantDecl":
+                        continue
+                    v = None
+                    for x in c.get("inner", []):
+                        while x.get("kind") in ("ImplicitCastExpr", "ParenExpr") and "value" not in x:
+                            x = x["inner"][0]
+                        if "value" in x:
+                            v = int(x["value"])
+                    if v is None:
+                        v = nxt
+                    self.enums[c["name"]] = v
+                    nxt = v + 1
+            if k == "FunctionDecl":
+                if any(c.get("kind") == "CompoundStmt" for c in o.get("inner", [])):
+                    self.funcs[o.get("name")] = o
+            elif k == "VarDecl":
+                if o.get("name") not in self.globals or any(not c.get("kind", "").endswith("Attr") for c in o.get("inner", [])):
+                    self.globals[o.get("name")] = o
+            elif k == "RecordDecl":
+                fs = [(f["name"], strip_quals(f["type"].get("desugaredQualType") or f["type"]["qualType"]))
+                      for f in o.get("inner", []) if f.get("kind") == "FieldDecl" and f.get("name")]
+                if o.get("completeDefinition") or fs:
+                    self.fields[o["id"]] = (o.get("tagUsed", "struct"), fs)
+                    if o.get("name"):
+                        self.recname[o["name"]] = o["id"]
+            elif k == "TypedefDecl":
+                rid = self._find_rec(o)
+                if rid:
+                    self.typedef_rec[o["name"]] = rid
+
+    def _find_rec(self, n):
+        d = n.get("decl")
+        if d and d.get("kind") == "RecordDecl":
+            return d["id"]
+        for c in n.get("inner", []):
+            r = self._find_rec(c)
+            if r:
+                return r
+        return None
+
+    def struct_fields(self, t):
+        """fields [(name, type string)] of the struct type named by the type string t, or None"""
+        t = strip_quals(t)
+        if t.startswith("struct "):
+            t = t[7:].strip()
+        rid = self.recname.get(t) or self.typedef_rec.get(t)
+        if rid is None or rid not in self.fields:
+            return None
+        tag, fs = self.fields[rid]
+        if tag != "struct":
+            return None
+        return fs
+
+
+def clang_ast(path, variant, rel):
+    key = (path, variant, tuple(EXTRA_INC))
     if key in _AST_CACHE:
         return _AST_CACHE[key]
     inc = ["-I" + d for d in EXTRA_INC] + ["-I" + os.path.join(SRC, "include"), "-I" + os.path.join(SRC, "include", "sodium"),
            "-I" + os.path.dirname(os.path.join(SRC, rel))]
-    cmd = ["clang-14", "-Xclang", "-ast-dump=json", "-Xclang", "-ast-dump-filter=" + fn, "-fsyntax-only", "-w"] + \
+    cmd = ["clang-14", "-Xclang", "-ast-dump=json", "-fsyntax-only", "-w"] + \
         build_sodium.defs_for(variant) + inc + build_sodium.mflags(rel) + ["-x", "c", path]
     p = subprocess.run(cmd, capture_output=True, text=True)
     if p.returncode != 0:
         raise Refuse("clang failed on %s [%s]: %s" % (path, variant, p.stderr[-800:]))
-    out, dec, s, i = [], json.JSONDecoder(), p.stdout, 0
-    while True:
-        while i < len(s) and s[i].isspace():
-            i += 1
-        if i >= len(s):
-            break
-        o, i = dec.raw_decode(s, i)
-        out.append(o)
-    _AST_CACHE[key] = out
-    return out
-
-
-def find_def(path, fn, variant, rel):
-    """the FunctionDecl WITH A BODY named exactly fn"""
-    for o in clang_ast(path, fn, variant, rel):
-        if o.get("kind") == "FunctionDecl" and o.get("name") in (fn, "_sodium_" + fn) and any(c.get("kind") == "CompoundStmt" for c in o.get("inner", [])):
-            return o
-    return None
-
-
-def find_global(path, name, variant, rel):
-    for o in clang_ast(path, name, variant, rel):
-        if o.get("kind") == "VarDecl" and o.get("name") == name:
-            return o
-    return None
+    a = UnitAST(json.loads(p.stdout))
+    _AST_CACHE[key] = a
+    return a
 
 
 # ------------------------------------------------------------------------------------------------
-# types
+# types (strings as clang prints them, qualifiers stripped)
 # ------------------------------------------------------------------------------------------------
 INT_TYPES = {
     "unsigned char": ("false", 8), "signed char": ("true", 8), "char": ("true", 8),
@@ -152,6 +311,7 @@ INT_TYPES = {
     "uint8_t": ("false", 8), "uint16_t": ("false", 16), "uint32_t": ("false", 32), "uint64_t": ("false", 64),
     "int8_t": ("true", 8), "int16_t": ("true", 16), "int32_t": ("true", 32), "int64_t": ("true", 64),
     "size_t": ("false", 64), "uint_fast16_t": ("false", 64), "uint128_t": ("false", 128),
+    "u8": ("false", 8), "u32": ("false", 32), "u64": ("false", 64), "_Bool": ("false", 8),
 }
 TY_NAMES = {("false", 8): ".u8", ("false", 16): ".u16", ("false", 32): ".u32", ("false", 64): ".u64",
             ("true", 8): ".i8", ("true", 16): ".i16", ("true", 32): ".i32", ("true", 64): ".i64"}
@@ -168,11 +328,48 @@ def tstr(node):
 
 
 def is_ptr(t):
-    return t.endswith("*")
+    return t.endswith("*") or "(*)" in t
+
+
+def split_arr(t):
+    """'T[a][b]' -> ('T', [a, b])"""
+    t = strip_quals(t)
+    if is_ptr(t):
+        return t, []
+    m = re.match(r"^(.*?)\s*((?:\[\d+\])+)$", t)
+    if not m:
+        return t, []
+    return m.group(1).strip(), [int(x) for x in re.findall(r"\[(\d+)\]", m.group(2))]
 
 
 def is_arr(t):
-    return re.search(r"\[\d+\]$", t) is not None
+    return bool(split_arr(t)[1])
+
+
+def pointee(t):
+    """type pointed to by a pointer type / element type of an array type"""
+    t = strip_quals(t)
+    m = re.match(r"^(.*?)\s*\(\*\)((?:\[\d+\])+)$", t)
+    if m:
+        return m.group(1).strip() + m.group(2)
+    if t.endswith("*"):
+        return t[:-1].strip()
+    b, dims = split_arr(t)
+    if dims:
+        return b + "".join("[%d]" % d for d in dims[1:])
+    raise Refuse("not a pointer/array type: " + t)
+
+
+def units(t):
+    """number of scalar (or struct) units an object of type t occupies in the flattened layout"""
+    n = 1
+    for d in split_arr(t)[1]:
+        n *= d
+    return n
+
+
+def scalar_of(t):
+    return split_arr(t)[0]
 
 
 def int_ty(t, where=""):
@@ -194,25 +391,14 @@ def wrap(ty, v):
     return v
 
 
-def elem_ty(t):
-    """element type of a pointer or array type string"""
-    t = strip_quals(t)
-    if is_ptr(t):
-        return strip_quals(t[:-1])
-    m = re.match(r"^(.*?)\s*\[\d+\]$", t)
-    if m:
-        return strip_quals(m.group(1))
-    raise Refuse("not a pointer/array type: " + t)
-
-
 def sizeof_t(t):
     t = strip_quals(t)
     if is_ptr(t):
         return 8
-    m = re.match(r"^(.*?)\s*\[(\d+)\]$", t)
-    if m:
-        return sizeof_t(m.group(1)) * int(m.group(2))
-    return int_ty(t, "(sizeof)")[1] // 8
+    b, dims = split_arr(t)
+    if b == "void":
+        return 1
+    return (int_ty(b, "(sizeof)")[1] // 8) * units(t)
 
 
 # ------------------------------------------------------------------------------------------------
@@ -256,17 +442,23 @@ def line_of(n):
 
 
 class FunTr:
-    """translation of one function"""
+    """translation of one function under one call SHAPE (see the docstring: sub-array passing / aliasing / labels)"""
 
-    def __init__(self, unit, decl, name):
+    def __init__(self, world, unit, decl, name, clone, shape, base_spec):
+        self.world = world
         self.unit = unit
         self.decl = decl
-        self.name = name         # the name asked for (private/quirks.h renames some functions to _sodium_<name>)
-        self.params, self.arr_params = [], []
-        self.alias = {}          # pointer local / parameter -> (base array, offset variable or None)
-        self.arr_elem = {}       # base array -> element type string (consistency of pointer casts)
+        self.name = name         # the C name asked for (private/quirks.h renames some functions to _sodium_<name>)
+        self.clone = clone       # the MiniC name: C name + shape suffix
+        self.shape = shape
+        self.base_spec = base_spec
+        self.params, self.arr_params, self.off_params = [], [], []
+        self.alias = {}          # pointer local / parameter -> (base, offset variable or None, pointee type)
+        self.rename = {}         # MiniC array name -> the array it is merged with (aliased arguments)
+        self.pub_arrays = set()  # MiniC arrays known (from the labelling) to have Public contents
         self.ptr_params = set()
         self.ptr_locals = {}     # declared pointer locals without initialiser -> assigned yet?
+        self.mutable = set()     # pointer variables that are advanced (`p += e`, `p++`, `p = p + e`)
         self.int_vars = {}       # name -> ty
         self.declared = set()
         self.tmp = 0
@@ -274,6 +466,8 @@ class FunTr:
         self.null_params = []
         self.global_arrays = []  # (name, values)
         self.const_arrays = set()
+        self.init_stmts = []
+        self.dn = {}             # clang declaration id -> MiniC name (locals declared more than once)
         self.last_line = None
 
     def refuse(self, what, node=None):
@@ -282,100 +476,130 @@ class FunTr:
             self.last_line = ln
         raise Refuse("%s: %s (function %s, near line %s of %s)" % ("unsupported construct", what, self.name, self.last_line, self.unit.rel))
 
+    def A(self, name):
+        return self.rename.get(name, name)
+
+    def fields(self, t):
+        return self.unit.ast.struct_fields(t)
+
+    def expand(self, base, t):
+        """MiniC arrays (unrenamed) that make up an object / pointer target of (element) type t named base"""
+        fs = self.fields(scalar_of(t))
+        if fs is None:
+            return [base]
+        return [base + "." + f for f, _ in fs]
+
     # ----- declarations
     def declare(self, name, node):
         if name in self.declared:
             self.refuse("second declaration of the name `%s` (shadowing)" % name, node)
         self.declared.add(name)
 
+    def declare_local(self, d):
+        """a local declared a second time (sibling or nested scope) gets a fresh MiniC name; references go by clang's declaration id"""
+        name = d["name"]
+        if name in self.declared:
+            k = 2
+            while "%s__%d" % (name, k) in self.declared:
+                k += 1
+            name = "%s__%d" % (name, k)
+        self.declared.add(name)
+        self.dn[d["id"]] = name
+        return name
+
+    def rn(self, ref):
+        rd = ref["referencedDecl"]
+        return self.dn.get(rd.get("id"), rd["name"])
+
+    def prescan_mutable(self, body):
+        def target(n):
+            while n.get("kind") == "ParenExpr":
+                n = n["inner"][0]
+            if n.get("kind") == "DeclRefExpr" and is_ptr(tstr(n)):
+                return self.rn(n)
+            return None
+
+        def walk(n):
+            k = n.get("kind")
+            if k == "CompoundAssignOperator" or (k == "UnaryOperator" and n.get("opcode") in ("++", "--")):
+                nm = target(n["inner"][0])
+                if nm:
+                    self.mutable.add(nm)
+            if k == "BinaryOperator" and n.get("opcode") == "=":
+                nm = target(n["inner"][0])
+                if nm and self.count_refs(n["inner"][1], nm) > 0:
+                    self.mutable.add(nm)
+            for c in n.get("inner", []):
+                walk(c)
+        walk(body)
+
     def header(self):
+        sh = self.shape
+        allnames, j = [], 0
+        spec_pubarr = list(self.base_spec.get("pubarr", []))
         for c in self.decl.get("inner", []):
             if c.get("kind") == "ParmVarDecl":
                 nm = c.get("name")
                 if nm is None:
+                    if tstr(c) == "void":
+                        continue
                     self.refuse("unnamed parameter", c)
                 t = tstr(c)
                 self.declare(nm, c)
                 if is_ptr(t) or is_arr(t):
-                    et = elem_ty(t)
-                    if is_ptr(et) or "(" in et:
+                    pt = pointee(t)
+                    if is_ptr(pt) or "(" in pt:
                         self.refuse("parameter `%s` of type `%s`" % (nm, t), c)
-                    self.arr_params.append(nm)
+                    if pt != "void" and self.fields(scalar_of(pt)) is None:
+                        int_ty(scalar_of(pt), "(element type of `%s`)" % nm)
+                    ent = sh[j] if sh else None
+                    exp = self.expand(nm, pt)
+                    for i, e in enumerate(exp):
+                        rep, pub = (ent[1][i] if ent else (-1, False))
+                        if rep >= 0:
+                            self.rename[e] = allnames[rep]
+                        else:
+                            self.arr_params.append(e)
+                        if pub:
+                            self.pub_arrays.add(self.rename.get(e, e))
+                        allnames.append(self.rename.get(e, e))
+                    offv = None
+                    if ent and ent[0]:
+                        offv = nm + "__off"
+                        self.off_params.append(offv)
+                        self.int_vars[offv] = U64
+                    elif nm in self.mutable:
+                        offv = nm + "__off"
+                        self.int_vars[offv] = U64
+                        self.init_stmts.append('.assign "%s" (.lit 0)' % offv)
                     self.ptr_params.add(nm)
-                    self.alias[nm] = (nm, None)
-                    if et != "void":
-                        int_ty(et, "(element type of `%s`)" % nm)
-                        self.arr_elem[nm] = et
+                    self.alias[nm] = (nm, offv, pt)
+                    j += 1
                 else:
                     self.int_vars[nm] = int_ty(t, "(parameter `%s`)" % nm)
                     self.params.append(nm)
+        self.params += self.off_params
+        for a in spec_pubarr:
+            self.pub_arrays.add(self.A(a))
         rt = strip_quals(self.decl["type"]["qualType"].split("(")[0])
         self.ret_ptr = is_ptr(rt)
         self.ret_void = rt == "void"
 
-    # ----- pointers
-    def note_elem(self, base, t, node):
-        et = elem_ty(t)
-        if et == "void":
-            return
-        old = self.arr_elem.get(base)
-        if old is None:
-            self.arr_elem[base] = et
-        elif sizeof_t(old) != sizeof_t(et):
-            self.refuse("pointer cast changing the element size of `%s` (%s vs %s)" % (base, old, et), node)
+    def spec(self):
+        b = self.base_spec
+        pub = [p for p in b.get("pub", [])] + self.off_params
+        pa = []
+        for a in list(b.get("pubarr", [])) + sorted(self.pub_arrays):
+            a = self.A(a)
+            if a not in pa and (a in self.arr_params or a in [g[0] for g in self.global_arrays]):
+                pa.append(a)
+        return dict(pub=pub, pubarr=pa, ret=b.get("ret", False))
 
-    def ptr(self, n, cx):
-        """pointer-valued expression -> (base array, offset expr string or None)"""
-        k = n.get("kind")
-        if k in ("ParenExpr",):
-            return self.ptr(n["inner"][0], cx)
-        if k in ("ImplicitCastExpr", "CStyleCastExpr"):
-            ck = n.get("castKind")
-            if ck in ("LValueToRValue", "NoOp", "BitCast", "ArrayToPointerDecay"):
-                b, o = self.ptr(n["inner"][0], cx)
-                if ck == "BitCast":
-                    self.note_elem(b, tstr(n), n)
-                return b, o
-            self.refuse("pointer cast of kind %s" % ck, n)
-        if k == "DeclRefExpr":
-            nm = n["referencedDecl"]["name"]
-            rk = n["referencedDecl"]["kind"]
-            t = tstr(n)
-            if nm in self.alias:
-                b, o = self.alias[nm]
-                return b, (L_var(o) if o else None)
-            if nm in self.ptr_locals:
-                self.refuse("use of pointer `%s` before its (single, top-level) assignment" % nm, n)
-            if is_arr(t) and rk == "VarDecl":
-                if nm not in self.declared:      # file-scope array: fetch its initialiser
-                    self.import_global_array(nm, n)
-                return nm, None
-            self.refuse("pointer expression referring to `%s`" % nm, n)
-        if k == "UnaryOperator" and n.get("opcode") == "&":
-            s = n["inner"][0]
-            while s.get("kind") == "ParenExpr":
-                s = s["inner"][0]
-            if s.get("kind") == "ArraySubscriptExpr":
-                b, o = self.ptr(s["inner"][0], cx)
-                i = self.idx_u64(s["inner"][1], cx)
-                return b, self.add_off(o, "add", i)
-            if s.get("kind") == "UnaryOperator" and s.get("opcode") == "*":
-                return self.ptr(s["inner"][0], cx)
-            self.refuse("address-of `&` applied to something else than an array element", n)
-        if k == "BinaryOperator" and n.get("opcode") in ("+", "-"):
-            l, r = n["inner"]
-            if is_ptr(tstr(l)) or is_arr(tstr(l)):
-                b, o = self.ptr(l, cx)
-                return b, self.add_off(o, "add" if n["opcode"] == "+" else "sub", self.idx_u64(r, cx))
-            if n["opcode"] == "+":
-                b, o = self.ptr(r, cx)
-                return b, self.add_off(o, "add", self.idx_u64(l, cx))
-        self.refuse("pointer expression of kind %s" % k, n)
-
-    def idx_u64(self, n, cx):
-        e = self.expr(n, cx)
-        t = int_ty(tstr(n), "(index)")
-        return e if t == U64 else L_cast(U64, e)
+    # ----- locations and pointers:  (base, offset expression or None, type of the designated object)
+    def scale(self, e, k):
+        if e is None or k == 1:
+            return e
+        return L_bin("mul", U64, e, L_lit(k))
 
     def add_off(self, o, op, i):
         if o is None:
@@ -384,58 +608,269 @@ class FunTr:
             return L_bin("sub", U64, L_lit(0), i)
         return L_bin(op, U64, o, i)
 
-    def import_global_array(self, nm, node):
-        g = find_global(self.unit.path, nm, self.unit.variant, self.unit.rel)
-        if g is None:
-            self.refuse("file-scope array `%s` not found" % nm, node)
-        t = tstr(g)
-        m = re.match(r"^(.*?)\s*\[(\d+)\]$", t)
-        if not m or "const" not in (g["type"].get("qualType", "") + g["type"].get("desugaredQualType", "")):
-            self.refuse("file-scope array `%s` of type `%s` (only const arrays with a literal initialiser)" % (nm, t), node)
-        ety = int_ty(m.group(1), "(element type of `%s`)" % nm)
-        vals = self.init_list(g, ety, int(m.group(2)), node)
-        self.declare(nm, node)
-        self.global_arrays.append((nm, vals))
-        self.arr_elem[nm] = strip_quals(m.group(1))
+    def idx_u64(self, n, cx):
+        e = self.expr(n, cx)
+        t = int_ty(tstr(n), "(index)")
+        return e if t == U64 else L_cast(U64, e)
 
-    def init_list(self, vardecl, ety, n, node):
-        inner = [c for c in vardecl.get("inner", []) if c.get("kind") not in (None,) and not c.get("kind", "").endswith("Attr")]
-        if not inner:
-            return [0] * n
-        il = inner[0]
-        if il.get("kind") != "InitListExpr":
-            self.refuse("array initialiser of kind %s" % il.get("kind"), node)
-        vals = []
-        for c in il.get("inner", []):
-            vals.append(wrap(ety, self.const(c, node)))
+    def check_cast(self, old, new, node):
+        """a pointer cast must keep the element size (void * keeps the old pointee)"""
+        if new == "void":
+            return old
+        if old == "void":
+            return new
+        so, sn = scalar_of(old), scalar_of(new)
+        if self.fields(so) is not None or self.fields(sn) is not None:
+            if so != sn:
+                self.refuse("pointer cast between `%s` and `%s`" % (old, new), node)
+            return new
+        if sizeof_t(so) != sizeof_t(sn):
+            self.refuse("pointer cast changing the element size (%s vs %s)" % (old, new), node)
+        if units(old) != units(new) and (is_arr(old) or is_arr(new)):
+            self.refuse("pointer cast changing the array shape (%s vs %s)" % (old, new), node)
+        return new
+
+    def loc(self, n, cx):
+        k = n.get("kind")
+        if k == "ParenExpr":
+            return self.loc(n["inner"][0], cx)
+        if k == "DeclRefExpr":
+            nm = self.rn(n)
+            rk = n["referencedDecl"]["kind"]
+            t = tstr(n)
+            if rk not in ("VarDecl",) or is_ptr(t):
+                self.refuse("reference to `%s` used as an object" % nm, n)
+            if nm not in self.declared:
+                self.import_global(nm, n)
+            if self.fields(scalar_of(t)) is not None:
+                return nm, None, t          # struct base: field arrays are named at the member access
+            if not is_arr(t):
+                self.refuse("address of the scalar variable `%s`" % nm, n)
+            return self.A(nm), None, t
+        if k == "ArraySubscriptExpr":
+            b, o, pt = self.ptr(n["inner"][0], cx)
+            if o is None and units(pt) == 1:
+                return b, self.expr(n["inner"][1], cx), pt      # whole array, plain index: in the index's own type
+            i = self.idx_u64(n["inner"][1], cx)
+            return b, self.add_off(o, "add", self.scale(i, units(pt))), pt
+        if k == "MemberExpr":
+            s = n["inner"][0]
+            if n.get("isArrow"):
+                sb, so, st = self.ptr(s, cx)
+            else:
+                sb, so, st = self.loc(s, cx)
+            fs = self.fields(scalar_of(st))
+            if fs is None or is_arr(st):
+                self.refuse("member access on type `%s`" % st, n)
+            ft = dict(fs).get(n.get("name"))
+            if ft is None:
+                self.refuse("unknown member `%s`" % n.get("name"), n)
+            if self.fields(scalar_of(ft)) is not None or is_ptr(ft):
+                self.refuse("member `%s` of type `%s` (nested struct / pointer member)" % (n.get("name"), ft), n)
+            return self.A(sb + "." + n["name"]), self.scale(so, units(ft)), ft
+        if k == "UnaryOperator" and n.get("opcode") == "*":
+            return self.ptr(n["inner"][0], cx)
+        if k in ("ImplicitCastExpr", "CStyleCastExpr") and n.get("castKind") == "NoOp":
+            return self.loc(n["inner"][0], cx)
+        self.refuse("lvalue of kind %s" % k, n)
+
+    def ptr(self, n, cx):
+        """pointer-valued expression -> (base, offset expr string or None, pointee type)"""
+        k = n.get("kind")
+        if k in ("ParenExpr",):
+            return self.ptr(n["inner"][0], cx)
+        if k in ("ImplicitCastExpr", "CStyleCastExpr"):
+            ck = n.get("castKind")
+            s = n["inner"][0]
+            if ck == "ArrayToPointerDecay":
+                b, o, t = self.loc(s, cx)
+                return b, o, pointee(t)
+            if ck == "LValueToRValue":
+                while s.get("kind") == "ParenExpr":
+                    s = s["inner"][0]
+                if s.get("kind") != "DeclRefExpr":
+                    self.refuse("pointer read from an lvalue of kind %s" % s.get("kind"), n)
+                return self.ptrvar(s)
+            if ck == "NoOp":
+                return self.ptr(s, cx)
+            if ck == "BitCast":
+                b, o, pt = self.ptr(s, cx)
+                return b, o, self.check_cast(pt, pointee(tstr(n)), n)
+            self.refuse("pointer cast of kind %s" % ck, n)
+        if k == "DeclRefExpr":
+            return self.ptrvar(n)
+        if k == "UnaryOperator" and n.get("opcode") == "&":
+            s = n["inner"][0]
+            b, o, t = self.loc(s, cx)
+            return b, o, t
+        if k == "BinaryOperator" and n.get("opcode") in ("+", "-"):
+            l, r = n["inner"]
+            if is_ptr(tstr(l)) or is_arr(tstr(l)):
+                b, o, pt = self.ptr(l, cx)
+                return b, self.add_off(o, "add" if n["opcode"] == "+" else "sub", self.scale(self.idx_u64(r, cx), units(pt))), pt
+            if n["opcode"] == "+":
+                b, o, pt = self.ptr(r, cx)
+                return b, self.add_off(o, "add", self.scale(self.idx_u64(l, cx), units(pt))), pt
+        self.refuse("pointer expression of kind %s" % k, n)
+
+    def ptrvar(self, n):
+        nm = self.rn(n)
+        if nm in self.alias:
+            b, o, pt = self.alias[nm]
+            if self.fields(scalar_of(pt)) is None:
+                b = self.A(b)
+            return b, (L_var(o) if o else None), pt
+        if nm in self.ptr_locals:
+            self.refuse("use of pointer `%s` before its (single, top-level) assignment" % nm, n)
+        self.refuse("pointer expression referring to `%s`" % nm, n)
+
+    # ----- constant data
+    def import_global(self, nm, node):
+        g = self.unit.ast.globals.get(nm)
+        if g is None:
+            self.refuse("file-scope object `%s` not found" % nm, node)
+        t = tstr(g)
+        if not is_arr(t) or "const" not in (g["type"].get("qualType", "") + g["type"].get("desugaredQualType", "")):
+            self.refuse("file-scope object `%s` of type `%s` (only const arrays with a literal initialiser)" % (nm, t), node)
+        self.declare(nm, node)
+        for name, vals in self.flat_init(nm, g, t, node):
+            self.global_arrays.append((name, vals))
+            self.const_arrays.add(name)
+
+    def init_children(self, il):
         if "array_filler" in il:
-            vals = []
-            for c in il["array_filler"]:
-                if c.get("kind") == "ImplicitValueInitExpr":
-                    continue
-                vals.append(wrap(ety, self.const(c, node)))
-        vals += [0] * (n - len(vals))
-        return vals
+            return [c for c in il["array_filler"] if c.get("kind") != "ImplicitValueInitExpr"]
+        return il.get("inner", [])
+
+    def flat_init(self, nm, vardecl, t, node):
+        """[(MiniC array name, values)] for an object of type t with clang initialiser (zeros if none)"""
+        sc = scalar_of(t)
+        fs = self.fields(sc)
+        out = {}
+        names = [nm] if fs is None else [nm + "." + f for f, _ in fs]
+        for x in names:
+            out[x] = []
+
+        def zero(t1, pre):
+            b, dims = split_arr(t1)
+            f1 = self.fields(b)
+            if f1 is None:
+                out[pre] += [0] * units(t1)
+            else:
+                for _ in range(units(t1)):
+                    for f, ft in f1:
+                        zero(ft, pre + "." + f)
+
+        def go(n, t1, pre):
+            while n.get("kind") in ("ParenExpr",) or (n.get("kind") in ("ImplicitCastExpr", "CStyleCastExpr", "ConstantExpr") and not is_scalar(t1)):
+                n = n["inner"][0]
+            b, dims = split_arr(t1)
+            if dims:
+                if n.get("kind") == "ImplicitValueInitExpr":
+                    return zero(t1, pre)
+                if n.get("kind") != "InitListExpr":
+                    self.refuse("array initialiser of kind %s" % n.get("kind"), node)
+                et = b + "".join("[%d]" % d for d in dims[1:])
+                ch = self.init_children(n)
+                for c in ch:
+                    go(c, et, pre)
+                for _ in range(dims[0] - len(ch)):
+                    zero(et, pre)
+                return
+            f1 = self.fields(b)
+            if f1 is not None:
+                if n.get("kind") == "ImplicitValueInitExpr":
+                    return zero(t1, pre)
+                if n.get("kind") != "InitListExpr":
+                    self.refuse("struct initialiser of kind %s" % n.get("kind"), node)
+                ch = n.get("inner", [])
+                for i, (f, ft) in enumerate(f1):
+                    if i < len(ch):
+                        go(ch[i], ft, pre + "." + f)
+                    else:
+                        zero(ft, pre + "." + f)
+                return
+            if n.get("kind") == "ImplicitValueInitExpr":
+                out[pre].append(0)
+            else:
+                out[pre].append(wrap(int_ty(b), self.const(n, node)))
+
+        def is_scalar(t1):
+            return not split_arr(t1)[1] and self.fields(split_arr(t1)[0]) is None
+        inner = [c for c in vardecl.get("inner", []) if c.get("kind") and not c.get("kind", "").endswith("Attr")]
+        if not inner:
+            zero(t, nm)
+        else:
+            go(inner[0], t, nm)
+        return [(x, out[x]) for x in names]
 
     def const(self, n, node):
+        v = self.const_eval(n)
+        if v is None:
+            self.refuse("non-literal array initialiser element (%s)" % n.get("kind"), node)
+        return v
+
+    def const_eval(self, n):
+        """value of an integer constant expression, or None"""
         k = n.get("kind")
         if k in ("IntegerLiteral", "CharacterLiteral"):
             return int(n["value"])
+        if k == "ConstantExpr" and "value" in n:
+            return int(n["value"])
+        if k == "DeclRefExpr" and n.get("referencedDecl", {}).get("kind") == "EnumConstantDecl":
+            return self.unit.ast.enums.get(self.rn(n))
         if k in ("ImplicitCastExpr", "CStyleCastExpr", "ParenExpr", "ConstantExpr"):
-            if "value" in n and k == "ConstantExpr":
-                return int(n["value"])
-            v = self.const(n["inner"][0], node)
-            if k != "ParenExpr":
-                v = wrap(int_ty(tstr(n)), v)
+            if n.get("castKind") not in (None, "IntegralCast", "NoOp"):
+                return None
+            v = self.const_eval(n["inner"][0])
+            if v is None:
+                return None
+            if k in ("ImplicitCastExpr", "CStyleCastExpr"):
+                try:
+                    v = wrap(int_ty(tstr(n)), v)
+                except Refuse:
+                    return None
             return v
-        if k == "UnaryOperator" and n.get("opcode") == "-":
-            return -self.const(n["inner"][0], node)
-        self.refuse("non-literal array initialiser element (%s)" % k, node)
+        if k == "UnaryExprOrTypeTraitExpr" and n.get("name") == "sizeof":
+            try:
+                if "argType" in n:
+                    at = n["argType"]
+                    return self.sizeof(at.get("desugaredQualType") or at["qualType"], n)
+                return self.sizeof(tstr(n["inner"][0]), n)
+            except Refuse:
+                return None
+        if k == "UnaryOperator" and n.get("opcode") in ("-", "~", "+"):
+            v = self.const_eval(n["inner"][0])
+            if v is None:
+                return None
+            v = {"-": -v, "~": ~v, "+": v}[n["opcode"]]
+            return wrap(int_ty(tstr(n)), v)
+        if k == "BinaryOperator" and n.get("opcode") in ("+", "-", "*", "/", "<<", ">>", "&", "|", "^", "%"):
+            a, b = self.const_eval(n["inner"][0]), self.const_eval(n["inner"][1])
+            if a is None or b is None:
+                return None
+            op = n["opcode"]
+            if op in ("/", "%") and (b == 0 or a < 0 or b < 0):
+                return None
+            v = {"+": a + b, "-": a - b, "*": a * b, "/": a // b if b else 0, "%": a % b if b else 0, "<<": a << b if 0 <= b < 128 else 0,
+                 ">>": a >> b if 0 <= b < 128 else 0, "&": a & b, "|": a | b, "^": a ^ b}[op]
+            try:
+                return wrap(int_ty(tstr(n)), v)
+            except Refuse:
+                return None
+        return None
+
+    def sizeof(self, t, node):
+        t = strip_quals(t)
+        fs = self.fields(scalar_of(t)) if not is_ptr(t) else None
+        if fs is not None:
+            self.refuse("sizeof of the struct type `%s` used as a value" % t, node)
+        return sizeof_t(t)
 
     # ----- expressions
     def count_refs(self, n, name):
         c = 0
-        if n.get("kind") == "DeclRefExpr" and n.get("referencedDecl", {}).get("name") == name:
+        if n.get("kind") == "DeclRefExpr" and "referencedDecl" in n and self.rn(n) == name:
             c += 1
         for ch in n.get("inner", []):
             c += self.count_refs(ch, name)
@@ -447,7 +882,7 @@ class FunTr:
         if k == "ParenExpr":
             return self.lval_read(n["inner"][0], cx)
         if k == "DeclRefExpr":
-            nm = n["referencedDecl"]["name"]
+            nm = self.rn(n)
             rk = n["referencedDecl"]["kind"]
             if rk == "EnumConstantDecl":
                 self.refuse("enum constant `%s`" % nm, n)
@@ -461,17 +896,11 @@ class FunTr:
                     self.refuse("reference to `%s`" % nm, n)
                 self.unit.notes.add("%s reads the file-scope variable `%s` (modelled as a variable that is 0 unless assigned)" % (self.name, nm))
             return L_var(nm)
-        if k == "ArraySubscriptExpr":
-            b, o = self.ptr(n["inner"][0], cx)
-            self.note_elem(b, tstr(n["inner"][0]), n)
-            if o is None:
-                i = self.expr(n["inner"][1], cx)
-            else:
-                i = L_bin("add", U64, o, self.idx_u64(n["inner"][1], cx))
-            return L_load(b, i)
-        if k == "UnaryOperator" and n.get("opcode") == "*":
-            b, o = self.ptr(n["inner"][0], cx)
-            self.note_elem(b, tstr(n["inner"][0]), n)
+        if k in ("ArraySubscriptExpr", "MemberExpr") or (k == "UnaryOperator" and n.get("opcode") == "*"):
+            b, o, t = self.loc(n, cx)
+            if is_arr(t) or self.fields(t) is not None:
+                self.refuse("read of an aggregate of type `%s`" % t, n)
+            int_ty(t, "(loaded element)")
             return L_load(b, o if o is not None else L_lit(0))
         self.refuse("lvalue of kind %s" % k, n)
 
@@ -502,14 +931,16 @@ class FunTr:
                 if s.get("kind") == "IntegerLiteral":
                     return L_lit(wrap(ty, int(s["value"])))
                 return L_cast(ty, self.expr(s, cx))
+            if ck == "IntegralToBoolean":
+                return L_bin("ne", I32, self.expr(s, cx), L_lit(0))
             self.refuse("cast of kind %s to `%s`" % (ck, tstr(n)), n)
         if k == "UnaryExprOrTypeTraitExpr":
             if n.get("name") != "sizeof":
                 self.refuse(n.get("name"), n)
             if "argType" in n:
                 at = n["argType"]
-                return L_lit(sizeof_t(at.get("desugaredQualType") or at["qualType"]))
-            return L_lit(sizeof_t(tstr(n["inner"][0])))
+                return L_lit(self.sizeof(at.get("desugaredQualType") or at["qualType"], n))
+            return L_lit(self.sizeof(tstr(n["inner"][0]), n))
         if k == "UnaryOperator":
             op = n.get("opcode")
             s = n["inner"][0]
@@ -538,8 +969,26 @@ class FunTr:
                 a = self.cond_val(l, sub)
                 b = self.cond_val(r, sub)
                 return "(.%s %s %s)" % ("land" if op == "&&" else "lor", a, b)
+            if op == "=":
+                # chained assignment `a = b = e`: the inner assignment is hoisted, its value is the (converted) value stored
+                if cx.get("nohoist"):
+                    self.refuse("assignment %s" % cx["nohoist"], n)
+                ll = l
+                while ll.get("kind") == "ParenExpr":
+                    ll = ll["inner"][0]
+                if ll.get("kind") != "DeclRefExpr" or is_ptr(tstr(ll)):
+                    self.refuse("assignment to something else than a local variable in expression position", n)
+                rv = self.expr(r, cx)
+                cx["pre"] += self.assign_to(ll, lambda rd: rv, cx, n)
+                return L_var(self.rn(ll))
             if op in CMP and (is_ptr(tstr(l)) or is_ptr(tstr(r))):
-                return self.null_cmp(l, r, op, n)
+                return self.null_cmp(l, r, op, n, cx)
+            if op == "-" and is_ptr(tstr(l)) and is_ptr(tstr(r)):
+                b1, o1, t1 = self.ptr(l, cx)
+                b2, o2, t2 = self.ptr(r, cx)
+                if b1 != b2 or units(t1) != 1:
+                    self.refuse("difference of pointers into different arrays", n)
+                return L_cast(int_ty(tstr(n)), L_bin("sub", U64, o1 or L_lit(0), o2 or L_lit(0)))
             if op in BINOPS:
                 if is_ptr(tstr(n)) or is_ptr(tstr(l)) or is_ptr(tstr(r)):
                     self.refuse("pointer arithmetic used as a value", n)
@@ -555,10 +1004,20 @@ class FunTr:
                 self.refuse("function call %s" % cx["nohoist"], n)
             self.tmp += 1
             t = "call%d__" % self.tmp
-            cx["pre"].append(self.call(n, t, cx))
+            cx["pre"] += self.call(n, t, cx)
             return L_var(t)
         if k == "DeclRefExpr":
-            self.refuse("reference to `%s` without lvalue conversion" % n.get("referencedDecl", {}).get("name"), n)
+            rd = n.get("referencedDecl", {})
+            if rd.get("kind") == "EnumConstantDecl" and rd.get("name") in self.unit.ast.enums:
+                return L_lit(self.unit.ast.enums[rd["name"]])
+            self.refuse("reference to `%s` without lvalue conversion" % rd.get("name"), n)
+        if k == "CompoundAssignOperator":
+            # `(x op= e)` used as a value (e.g. `if ((count += n) < n)`): the update is hoisted, the value is x re-read
+            if cx.get("nohoist"):
+                self.refuse("compound assignment %s" % cx["nohoist"], n)
+            cx["pre"] += self.expr_stmt(n, False)
+            self.unit.notes.add("a compound assignment used as a value is hoisted and its lvalue re-read")
+            return self.lval_read(n["inner"][0], cx)
         self.refuse("expression of kind %s" % k, n)
 
     def cond_val(self, n, cx):
@@ -573,21 +1032,26 @@ class FunTr:
             n = n["inner"][0]
         return False
 
-    def null_cmp(self, l, r, op, node):
-        if op not in ("==", "!="):
-            self.refuse("ordered comparison of pointers", node)
-        if self.is_null(r):
+    def null_cmp(self, l, r, op, node, cx):
+        if self.is_null(r) and op in ("==", "!="):
             return self.null_test(l, op, node)
-        if self.is_null(l):
+        if self.is_null(l) and op in ("==", "!="):
             return self.null_test(r, op, node)
-        self.refuse("comparison of two pointers", node)
+        # two pointers into the same array: compare the offsets (addresses are Public, so is the comparison's trace-free result)
+        b1, o1, t1 = self.ptr(l, cx)
+        b2, o2, t2 = self.ptr(r, cx)
+        if b1 != b2:
+            self.refuse("comparison of pointers into different arrays", node)
+        return L_bin(BINOPS[op], I32, o1 or L_lit(0), o2 or L_lit(0))
 
     def null_test(self, p, op, node):
         while p.get("kind") in ("ParenExpr", "ImplicitCastExpr", "CStyleCastExpr"):
             p = p["inner"][0]
-        if p.get("kind") != "DeclRefExpr" or p["referencedDecl"]["name"] not in self.ptr_params:
+        if p.get("kind") != "DeclRefExpr" or self.rn(p) not in self.ptr_params:
             self.refuse("NULL test of something else than a pointer parameter", node)
-        v = p["referencedDecl"]["name"] + "__isnull"
+        if self.rn(p) in self.mutable:
+            self.refuse("NULL test of a pointer parameter that is advanced", node)
+        v = self.rn(p) + "__isnull"
         if v not in self.null_params:
             self.null_params.append(v)
         # p == NULL  <->  isnull != 0
@@ -599,17 +1063,23 @@ class FunTr:
         while s.get("kind") == "ParenExpr":
             s = s["inner"][0]
         if s.get("kind") != "DeclRefExpr":
+            if as_stmt:
+                cx2 = self.new_cx(n)
+                ty = int_ty(tstr(s))
+                return self.wrapcx(cx2, self.assign_to(s, lambda rd: L_bin("add" if op == "++" else "sub", ty, rd(), L_lit(1)), cx2, n))
             self.refuse("`%s` applied to something else than a local variable" % op, n)
-        nm = s["referencedDecl"]["name"]
+        nm = self.rn(s)
         t = tstr(s)
         if is_ptr(t):
-            self.refuse("`%s` on the pointer `%s`" % (op, nm), n)
+            if not as_stmt:
+                self.refuse("`%s` on the pointer `%s` inside an expression" % (op, nm), n)
+            return self.ptr_advance(nm, "add" if op == "++" else "sub", L_lit(1), n)
         ty = int_ty(t)
         if nm not in self.declared:
             self.refuse("`%s` on the non-local `%s`" % (op, nm), n)
         upd = '.assign "%s" %s' % (nm, L_bin("add" if op == "++" else "sub", ty, L_var(nm), L_lit(1)))
         if as_stmt:
-            return upd
+            return [upd]
         if cx.get("nohoist"):
             self.refuse("`%s%s` %s" % (nm, op, cx["nohoist"]), n)
         if self.count_refs(cx["full"], nm) != 1:
@@ -617,39 +1087,212 @@ class FunTr:
         (cx["post"] if n.get("isPostfix") else cx["pre"]).append(upd)
         return L_var(nm)
 
+    def ptr_advance(self, nm, op, amount, node):
+        if nm not in self.alias or self.alias[nm][1] is None:
+            self.refuse("advance of the pointer `%s` (not bound to an array yet)" % nm, node)
+        b, o, pt = self.alias[nm]
+        return ['.assign "%s" %s' % (o, L_bin(op, U64, L_var(o), self.scale(amount, units(pt))))]
+
     # ----- calls
     def callee_name(self, n):
         f = n["inner"][0]
         while f.get("kind") in ("ImplicitCastExpr", "ParenExpr"):
             f = f["inner"][0]
+        if f.get("kind") == "DeclRefExpr" and f["referencedDecl"].get("kind") == "VarDecl" and f["referencedDecl"]["name"] in FUNPTR_PINS:
+            tgt = FUNPTR_PINS[f["referencedDecl"]["name"]]
+            self.unit.notes.add("the indirect call through the file-scope function pointer `%s` is resolved to `%s` (the portable implementation it is initialised with)" % (f["referencedDecl"]["name"], tgt))
+            return tgt, ""
         if f.get("kind") != "DeclRefExpr" or f["referencedDecl"].get("kind") != "FunctionDecl":
             self.refuse("indirect call", n)
         return f["referencedDecl"]["name"], f["type"]["qualType"]
 
+    def scalar_addr(self, a):
+        """`&w` for an integer variable w (possibly under casts) -> (name, ty) or None"""
+        while a.get("kind") in ("ParenExpr", "ImplicitCastExpr", "CStyleCastExpr"):
+            a = a["inner"][0]
+        if a.get("kind") == "UnaryOperator" and a.get("opcode") == "&":
+            s = a["inner"][0]
+            while s.get("kind") == "ParenExpr":
+                s = s["inner"][0]
+            if s.get("kind") == "DeclRefExpr" and not is_arr(tstr(s)) and not is_ptr(tstr(s)) and tstr(s) in INT_TYPES:
+                return self.rn(s), int_ty(tstr(s))
+        return None
+
+    def fresh(self, stem):
+        self.tmp += 1
+        return "%s%d__" % (stem, self.tmp)
+
+    def intrinsic(self, name, n, dst, cx):
+        """libc memory primitives, inlined as element loops (documented normalisation)"""
+        args = n["inner"][1:]
+        if name in ("memcpy", "memmove", "__builtin_memcpy"):
+            d, s, cnt = args
+            da, sa = self.scalar_addr(d), self.scalar_addr(s)
+            nb = self.const_eval(cnt)
+            if da or sa:
+                # little-endian (x86-64) load / store of an integer variable from / to a byte array
+                (w, ty) = da or sa
+                if nb is None or nb * 8 != ty[1]:
+                    self.refuse("memcpy to/from the address of `%s` with a size that is not its size" % w, n)
+                b, o, pt = self.ptr(s if da else d, cx)
+                if is_arr(pt) or self.fields(pt) is not None or sizeof_t(pt) != 1:
+                    self.refuse("memcpy between an integer variable and a non-byte array", n)
+                self.unit.notes.add("memcpy between an integer variable and a byte array is the little-endian load / store of x86-64")
+                if da:
+                    e = None
+                    for i in range(nb):
+                        t = L_cast(ty, L_load(b, self.add_off(o, "add", L_lit(i))))
+                        if i:
+                            t = L_bin("shl", ty, t, L_lit(8 * i))
+                        e = t if e is None else L_bin("bor", ty, e, t)
+                    return ['.assign "%s" %s' % (w, e)]
+                if b in self.const_arrays:
+                    self.refuse("store into the constant array `%s`" % b, n)
+                return ['.store "%s" %s %s' % (b, self.add_off(o, "add", L_lit(i)), L_cast(("false", 8), L_bin("shr", ty, L_var(w), L_lit(8 * i))))
+                        for i in range(nb)]
+            b1, o1, t1 = self.ptr(d, cx)
+            b2, o2, t2 = self.ptr(s, cx)
+            if self.fields(scalar_of(t1)) is not None or self.fields(scalar_of(t2)) is not None:
+                if scalar_of(t1) != scalar_of(t2) or not self.is_sizeof_of(cnt, scalar_of(t1)):
+                    self.refuse("memcpy of structs that is not `sizeof` one struct", n)
+                out = []
+                for f, ft in self.fields(scalar_of(t1)):
+                    out += self.copy_loop(self.A(b1 + "." + f), self.scale(o1, units(ft)), self.A(b2 + "." + f), self.scale(o2, units(ft)), L_lit(units(ft)), None, name == "memmove")
+                return out
+            s1, s2 = sizeof_t(scalar_of(t1)), sizeof_t(scalar_of(t2))
+            if s1 != s2:
+                self.refuse("memcpy between arrays of different element sizes (%s, %s)" % (t1, t2), n)
+            c = self.count_expr(cnt, s1, cx, n)
+            return self.copy_loop(b1, o1, b2, o2, c, None, name == "memmove")
+        if name in ("memset", "sodium_memzero", "explicit_bzero", "__builtin_memset"):
+            if name in ("memset", "__builtin_memset"):
+                d, v, cnt = args
+                cv = self.const_eval(v)
+            else:
+                d, cnt = args
+                cv = 0
+            b1, o1, t1 = self.ptr(d, cx)
+            if name == "sodium_memzero":
+                self.unit.notes.add("sodium_memzero / memset / memcpy (libc) are modelled as element-wise loops over the Public length")
+            fs = self.fields(scalar_of(t1))
+            if fs is not None:
+                if cv != 0 or not self.is_sizeof_of(cnt, t1):
+                    self.refuse("memset of a struct that is not zeroing `sizeof` the struct", n)
+                out = []
+                for f, ft in fs:
+                    tot = units(ft) * units(t1)
+                    out += self.copy_loop(self.A(b1 + "." + f), self.scale(o1, units(ft)), None, None, L_lit(tot), L_lit(0), False)
+                return out
+            s1 = sizeof_t(scalar_of(t1))
+            if s1 != 1 and cv != 0:
+                self.refuse("memset of a non-byte array with a non-zero / non-constant value", n)
+            val = L_lit(cv) if cv is not None else L_cast(("false", 8), self.expr(v, cx))
+            return self.copy_loop(b1, o1, None, None, self.count_expr(cnt, s1, cx, n), val, False)
+        self.refuse("call of `%s`" % name, n)
+
+    def is_sizeof_of(self, cnt, t):
+        while cnt.get("kind") in ("ParenExpr", "ImplicitCastExpr", "CStyleCastExpr", "ConstantExpr"):
+            cnt = cnt["inner"][0]
+        if cnt.get("kind") != "UnaryExprOrTypeTraitExpr" or cnt.get("name") != "sizeof":
+            return False
+        if "argType" in cnt:
+            at = cnt["argType"]
+            st = strip_quals(at.get("desugaredQualType") or at["qualType"])
+        else:
+            st = tstr(cnt["inner"][0])
+        if st.startswith("struct "):
+            st = st[7:]
+        t = strip_quals(t)
+        if t.startswith("struct "):
+            t = t[7:]
+        return st == t
+
+    def count_expr(self, cnt, esz, cx, node):
+        nb = self.const_eval(cnt)
+        if nb is not None:
+            if nb % esz:
+                self.refuse("byte count %d is not a multiple of the element size %d" % (nb, esz), node)
+            return L_lit(nb // esz)
+        if esz != 1:
+            self.refuse("non-constant byte count over an array of %d-byte elements" % esz, node)
+        return self.idx_u64(cnt, cx)
+
+    def copy_loop(self, b1, o1, b2, o2, cnt, val, backward_safe):
+        if b1 in self.const_arrays:
+            raise Refuse("store into the constant array `%s` (function %s)" % (b1, self.name))
+        i = self.fresh("mem_i")
+        self.int_vars[i] = U64
+        src = val if b2 is None else L_load(b2, self.add_off(o2, "add", L_var(i)))
+        if backward_safe and b1 == b2:
+            raise Refuse("memmove within the same array (function %s)" % self.name)
+        return ['.assign "%s" (.lit 0)' % i,
+                '.while %s\n%s' % (L_bin("lt", I32, L_var(i), cnt), indent(par(self.block([
+                    '.store "%s" %s %s' % (b1, self.add_off(o1, "add", L_var(i)), src),
+                    '.assign "%s" %s' % (i, L_bin("add", U64, L_var(i), L_lit(1)))]))))]
+
     def call(self, n, dst, cx):
+        """-> list of statements"""
         name, fty = self.callee_name(n)
         if name in NORETURN or "noreturn" in fty:
-            return ".abort"
-        callee = self.unit.function(name, n, self)
-        args, arrs = [], []
-        for a in n["inner"][1:]:
-            t = tstr(a)
-            if is_ptr(t) or is_arr(t):
-                b, o = self.ptr(a, cx)
+            return [".abort"]
+        if name in INTRINSICS:
+            return self.intrinsic(name, n, dst, cx)
+        if name in NOOPS:
+            return []
+        if name.startswith("_sodium_") and name not in CALLEE_SPECS:
+            name = name[8:]       # private/quirks.h renames some exported-looking internals to _sodium_<name>
+        decl, dunit = self.world.find_decl(name, self.unit)
+        if decl is None:
+            self.refuse("call of `%s`, which has no body in this file nor in the files listed in SEARCH_FILES" % name, n)
+        formals = [c for c in decl.get("inner", []) if c.get("kind") == "ParmVarDecl" and not (c.get("name") is None and tstr(c) == "void")]
+        actuals = n["inner"][1:]
+        if len(formals) != len(actuals):
+            self.refuse("argument count mismatch in the call of %s" % name, n)
+        args, offs, ents, names = [], [], [], []
+        for f, a in zip(formals, actuals):
+            ft = tstr(f)
+            if is_ptr(ft) or is_arr(ft):
+                fpt = pointee(ft)
+                b, o, pt = self.ptr(a, cx)
+                pt = self.check_cast(pt, fpt, n)
+                fexp = self.expand("", fpt)
+                aexp = [self.A(b + x) for x in fexp] if self.fields(scalar_of(fpt)) is not None else [b]
+                arrs = []
+                for x in aexp:
+                    rep = names.index(x) if x in names else -1
+                    arrs.append((rep, x in self.pub_arrays))
+                    names.append(x)
+                ents.append((o is not None, tuple(arrs)))
                 if o is not None:
-                    self.refuse("pointer argument with an offset in the call of %s" % name, n)
-                arrs.append(b)
+                    offs.append(o)
             else:
                 args.append(self.expr(a, cx))
-        if len(set(arrs)) != len(arrs):
-            self.refuse("the same array passed twice to %s (aliasing)" % name, n)
-        if len(args) != len(callee.params) - len(callee.null_params) or len(arrs) != len(callee.arr_params):
-            self.refuse("argument count mismatch in the call of %s" % name, n)
+        shape = tuple(ents)
+        callee = self.world.function(name, shape, decl, dunit, n, self)
         if callee.null_params:
             self.refuse("callee %s tests a pointer parameter for NULL" % name, n)
-        if name not in self.callees:
-            self.callees.append(name)
-        return '.call %s "%s" [%s] [%s]' % ('(some "%s")' % dst if dst else "none", name, ", ".join(args), ", ".join('"%s"' % a for a in arrs))
+        passed = [x for i, x in enumerate(names) if names.index(x) == i]
+        if len(passed) != len(callee.arr_params) or len(args) + len(offs) != len(callee.params):
+            self.refuse("internal: argument shape mismatch in the call of %s" % name, n)
+        for x in passed:
+            if x in self.const_arrays and not callee.readonly(callee.arr_params[passed.index(x)]):
+                self.refuse("constant array `%s` passed to %s, which stores into it" % (x, name), n)
+        if callee.clone not in self.callees:
+            self.callees.append(callee.clone)
+        return ['.call %s "%s" [%s] [%s]' % ('(some "%s")' % dst if dst else "none", callee.clone, ", ".join(args + offs), ", ".join('"%s"' % a for a in passed))]
+
+    def readonly(self, arr):
+        return ('.store "%s"' % arr) not in self.body and self._ro_calls(arr)
+
+    def _ro_calls(self, arr):
+        # an array handed on to a callee is read-only if the callee does not store into the corresponding parameter
+        for m in re.finditer(r'\.call (?:none|\(some "[^"]*"\)) "([^"]+)" \[[^\n]*?\] \[([^\]]*)\]', self.body):
+            cal = self.world.funs.get(m.group(1))
+            arrs = re.findall(r'"([^"]+)"', m.group(2))
+            if cal and arr in arrs:
+                if not cal.readonly(cal.arr_params[arrs.index(arr)]):
+                    return False
+        return True
 
     # ----- statements
     def new_cx(self, full, nohoist=None):
@@ -664,7 +1307,7 @@ class FunTr:
             lhs = lhs["inner"][0]
         k = lhs.get("kind")
         if k == "DeclRefExpr":
-            nm = lhs["referencedDecl"]["name"]
+            nm = self.rn(lhs)
             t = tstr(lhs)
             if is_ptr(t):
                 self.refuse("assignment to the pointer `%s` (only one top-level assignment of a pointer local is allowed)" % nm, node)
@@ -672,40 +1315,49 @@ class FunTr:
             if nm not in self.declared:
                 self.refuse("assignment to the non-local `%s`" % nm, node)
             return ['.assign "%s" %s' % (nm, rhs_of(lambda: L_var(nm)))]
-        if k in ("ArraySubscriptExpr", "UnaryOperator"):
-            ld = self.lval_read(lhs, cx)      # (.load "a" idx)
-            m = re.match(r'^\(\.load "([^"]+)" (.*)\)$', ld, re.S)
-            a, idx = m.group(1), m.group(2)
-            if a in [g[0] for g in self.global_arrays] or a in self.const_arrays:
-                self.refuse("store into the constant array `%s`" % a, node)
-            return ['.store "%s" %s %s' % (a, idx, rhs_of(lambda: ld))]
+        if k in ("ArraySubscriptExpr", "UnaryOperator", "MemberExpr"):
+            b, o, t = self.loc(lhs, cx)
+            if is_arr(t) or self.fields(t) is not None:
+                self.refuse("assignment to an aggregate of type `%s`" % t, node)
+            int_ty(t)
+            idx = o if o is not None else L_lit(0)
+            if b in self.const_arrays:
+                self.refuse("store into the constant array `%s`" % b, node)
+            ld = L_load(b, idx)
+            return ['.store "%s" %s %s' % (b, idx, rhs_of(lambda: ld))]
         self.refuse("assignment to an lvalue of kind %s" % k, node)
 
     def try_ptr_assign(self, n, toplevel):
-        """`p = <pointer expression>` for a declared pointer local"""
+        """`p = <pointer expression>` for a declared pointer local / an advanced pointer"""
         l, r = n["inner"]
         while l.get("kind") == "ParenExpr":
             l = l["inner"][0]
         if l.get("kind") == "DeclRefExpr" and is_ptr(tstr(l)):
-            nm = l["referencedDecl"]["name"]
+            nm = self.rn(l)
+            cx = self.new_cx(n, nohoist="in a pointer assignment")
+            if nm in self.mutable and nm in self.alias and self.alias[nm][1] is not None:
+                b0, o0, pt0 = self.alias[nm]
+                b, o, pt = self.ptr(r, cx)
+                if (self.A(b0) if self.fields(scalar_of(pt0)) is None else b0) != b:
+                    self.refuse("re-assignment of the pointer `%s` to a different array" % nm, n)
+                return ['.assign "%s" %s' % (o0, o if o is not None else L_lit(0))]
             if nm not in self.ptr_locals or self.ptr_locals[nm]:
                 self.refuse("re-assignment of the pointer `%s`" % nm, n)
             if not toplevel:
                 self.refuse("assignment of the pointer `%s` inside a loop or branch" % nm, n)
-            cx = self.new_cx(n, nohoist="in a pointer assignment")
             return self.bind_ptr(nm, r, cx, n)
         return None
 
     def bind_ptr(self, nm, init, cx, node):
-        b, o = self.ptr(init, cx)
-        self.note_elem(b, tstr(init), node)
+        b, o, pt = self.ptr(init, cx)
+        pt = self.check_cast(pt, pointee(strip_quals(self.ptr_types[nm])), node)
         self.ptr_locals[nm] = True
-        if o is None:
-            self.alias[nm] = (b, None)
+        if o is None and nm not in self.mutable:
+            self.alias[nm] = (b, None, pt)
             return []
-        self.alias[nm] = (b, nm)
+        self.alias[nm] = (b, nm, pt)
         self.int_vars[nm] = U64
-        return ['.assign "%s" %s' % (nm, o)]
+        return ['.assign "%s" %s' % (nm, o if o is not None else L_lit(0))]
 
     def expr_stmt(self, n, toplevel):
         """an expression used as a statement -> list of statement strings"""
@@ -744,7 +1396,12 @@ class FunTr:
             l, r = n["inner"]
             lt = tstr(l)
             if is_ptr(lt):
-                self.refuse("compound assignment to the pointer", n)
+                while l.get("kind") == "ParenExpr":
+                    l = l["inner"][0]
+                if l.get("kind") != "DeclRefExpr" or op not in ("+", "-"):
+                    self.refuse("compound assignment to the pointer", n)
+                amount = self.idx_u64(r, cx)
+                return self.wrapcx(cx, self.ptr_advance(self.rn(l), "add" if op == "+" else "sub", amount, n))
             lty = int_ty(lt)
             clt = int_ty(strip_quals(n["computeLHSType"].get("desugaredQualType") or n["computeLHSType"]["qualType"]))
             crt = int_ty(strip_quals(n["computeResultType"].get("desugaredQualType") or n["computeResultType"]["qualType"]))
@@ -758,11 +1415,11 @@ class FunTr:
                 return e if crt == lty else L_cast(lty, e)
             return self.wrapcx(cx, self.assign_to(l, rhs, cx, n))
         if k == "UnaryOperator" and n.get("opcode") in ("++", "--"):
-            return [self.incdec(n, None, as_stmt=True)]
+            return self.incdec(n, None, as_stmt=True)
         if k == "CallExpr":
             cx = self.new_cx(n)
             c = self.call(n, None, cx)
-            return self.wrapcx(cx, [c])
+            return self.wrapcx(cx, c)
         self.refuse("expression statement of kind %s" % k, n)
 
     def has_kind(self, n, kinds, stop=()):
@@ -782,6 +1439,61 @@ class FunTr:
         cx = self.new_cx(n, nohoist="in the condition of %s" % what)
         return self.cond_val(n, cx)
 
+    def switch(self, n):
+        """`switch (e) { case K1: …; case K2: …; break; … }` -> do { sel = e; m = 0; if (m || sel == K1) { m = 1; … } … } while (0)
+           (fall-through preserved; `break` leaves the do-while; `default` only as the last label)"""
+        c, body = n["inner"][-2], n["inner"][-1]
+        if body.get("kind") != "CompoundStmt":
+            self.refuse("switch whose body is not a compound statement", n)
+        cx = self.new_cx(n)
+        sel, m = self.fresh("sw_sel"), self.fresh("sw_m")
+        self.int_vars[sel] = I32
+        out = cx["pre"] + ['.assign "%s" %s' % (sel, self.expr(c, cx)), '.assign "%s" (.lit 0)' % m]
+        groups = []     # (label exprs or None for default, statements)
+
+        def peel(s, labels):
+            while s.get("kind") in ("CaseStmt", "DefaultStmt"):
+                if s["kind"] == "CaseStmt":
+                    v = self.const_eval(s["inner"][0])
+                    if v is None or len(s["inner"]) != 2:
+                        self.refuse("case label that is not an integer constant (or a GNU case range)", s)
+                    labels.append(v)
+                    s = s["inner"][1]
+                else:
+                    labels.append(None)
+                    s = s["inner"][0]
+            return s
+        for s in body.get("inner", []):
+            labels = []
+            s2 = peel(s, labels)
+            if labels:
+                groups.append((labels, []))
+            elif not groups:
+                self.refuse("statement before the first case label", s)
+            groups[-1][1].append(s2)
+        seen_default = False
+        for labels, ss in groups:
+            if seen_default:
+                self.refuse("`default` that is not the last label of the switch", n)
+            tests = [L_var(m)]
+            for v in labels:
+                if v is None:
+                    seen_default = True
+                    tests = [L_lit(1)]
+                    break
+                tests.append(L_bin("eq", I32, L_var(sel), L_lit(v)))
+            t = tests[0]
+            for x in tests[1:]:
+                t = L_bin("bor", I32, t, x)
+            b = ['.assign "%s" (.lit 1)' % m]
+            for s in ss:
+                if self.has_kind(s, ("ContinueStmt",), stop=("ForStmt", "WhileStmt", "DoStmt")):
+                    self.refuse("`continue` inside a switch", s)
+                b += self.stmt(s, False)
+            out.append(".ite %s\n%s\n%s" % (t, indent(par(self.block(b))), indent(".skip")))
+        self.unit.notes.add("`switch` becomes a chain of `if (matched | sel == K)` inside `do { } while (0)` (fall-through and `break` preserved)")
+        return [".doWhile\n%s\n%s" % (indent(par(self.block(out))), indent(L_lit(0)))]
+
     def stmt(self, n, toplevel):
         k = n.get("kind")
         ln = line_of(n)
@@ -797,6 +1509,8 @@ class FunTr:
         if k == "DeclStmt":
             out = []
             for d in n.get("inner", []):
+                if d.get("kind") in ("StaticAssertDecl",):
+                    continue
                 if d.get("kind") != "VarDecl":
                     self.refuse("declaration of kind %s" % d.get("kind"), d)
                 out += self.vardecl(d, toplevel)
@@ -805,10 +1519,13 @@ class FunTr:
             inner = n["inner"]
             if n.get("hasInit") or n.get("hasVar"):
                 self.refuse("if with init/declaration", n)
-            c = self.cond(inner[0], "if")
+            cx = self.new_cx(inner[0])       # a call in the condition of an `if` is evaluated once: hoisted in front
+            c = self.cond_val(inner[0], cx)
+            if cx["post"]:
+                self.refuse("postfix update in the condition of if", n)
             th = self.block(self.stmt(inner[1], False))
             el = self.block(self.stmt(inner[2], False)) if len(inner) > 2 else ".skip"
-            return [".ite %s\n%s\n%s" % (c, indent(par(th)), indent(par(el)))]
+            return cx["pre"] + [".ite %s\n%s\n%s" % (c, indent(par(th)), indent(par(el)))]
         if k == "ForStmt":
             init, cvar, c, inc, body = n["inner"]
             if cvar:
@@ -831,6 +1548,8 @@ class FunTr:
             if self.has_kind(body, ("ContinueStmt",), stop=("ForStmt", "WhileStmt", "DoStmt")):
                 self.refuse("`continue`", n)
             return [".doWhile\n%s\n%s" % (indent(par(self.block(self.stmt(body, False)))), indent(self.cond(c, "do-while")))]
+        if k == "SwitchStmt":
+            return self.switch(n)
         if k == "ReturnStmt":
             inner = n.get("inner", [])
             if not inner or self.ret_ptr:
@@ -844,7 +1563,7 @@ class FunTr:
             return cx["pre"] + [".ret %s" % e]
         if k == "BreakStmt":
             return [".brk"]
-        if k in ("ContinueStmt", "GotoStmt", "LabelStmt", "SwitchStmt", "CaseStmt", "DefaultStmt"):
+        if k in ("ContinueStmt", "GotoStmt", "LabelStmt", "CaseStmt", "DefaultStmt"):
             self.refuse("`%s`" % k, n)
         if k in ("GCCAsmStmt", "MSAsmStmt"):
             self.refuse("inline assembly", n)
@@ -853,35 +1572,39 @@ class FunTr:
         self.refuse("statement of kind %s" % k, n)
 
     def vardecl(self, d, toplevel):
-        nm = d["name"]
         t = tstr(d)
         qt = d["type"].get("qualType", "") + " " + d["type"].get("desugaredQualType", "")
+        nm = d["name"]
         const_static_arr = d.get("storageClass") == "static" and is_arr(t) and re.search(r"\bconst\b", qt)
         if d.get("storageClass") in ("static", "extern") and not const_static_arr:
             self.refuse("%s local `%s`" % (d["storageClass"], nm), d)
-        if const_static_arr:
-            if not toplevel:
-                self.refuse("static const array `%s` declared inside a loop or branch" % nm, d)
-            self.const_arrays.add(nm)     # never stored to: (re-)initialising it at its declaration is equivalent
-        self.declare(nm, d)
+        if const_static_arr and not toplevel:
+            self.refuse("static const array `%s` declared inside a loop or branch" % nm, d)
+        nm = self.declare_local(d)
         inner = [c for c in d.get("inner", []) if not c.get("kind", "").endswith("Attr")]
         if is_ptr(t):
-            et = elem_ty(t)
-            if is_ptr(et) or "(" in et:
+            et = pointee(t)
+            if is_ptr(et) or ("(" in et and "(*)" not in t):
                 self.refuse("local `%s` of type `%s`" % (nm, t), d)
             self.ptr_locals[nm] = False
+            self.ptr_types[nm] = t
             if inner:
+                if self.is_null(inner[0]):
+                    return []
                 if not toplevel:
                     self.refuse("initialised pointer local `%s` inside a loop or branch" % nm, d)
                 return self.bind_ptr(nm, inner[0], self.new_cx(d, nohoist="in a pointer initialiser"), d)
             return []
-        if is_arr(t):
-            m = re.match(r"^(.*?)\s*\[(\d+)\]$", t)
-            ety = int_ty(m.group(1), "(element type of `%s`)" % nm)
-            vals = self.init_list(d, ety, int(m.group(2)), d)
-            self.alias[nm] = (nm, None)
-            self.arr_elem[nm] = strip_quals(m.group(1))
-            return ['.declArr "%s" [%s]' % (nm, ", ".join(str(v) for v in vals))]
+        fs = self.fields(scalar_of(t))
+        if is_arr(t) or fs is not None:
+            if fs is None:
+                int_ty(scalar_of(t), "(element type of `%s`)" % nm)
+            out = []
+            for name, vals in self.flat_init(nm, d, t, d):
+                if const_static_arr:
+                    self.const_arrays.add(name)     # never stored to: (re-)initialising it at its declaration is equivalent
+                out.append('.declArr "%s" [%s]' % (name, fmt_vals(vals)))
+            return out
         ty = int_ty(t, "(local `%s`)" % nm)
         self.int_vars[nm] = ty
         if not inner:
@@ -891,14 +1614,24 @@ class FunTr:
         return self.wrapcx(cx, ['.assign "%s" %s' % (nm, e)])
 
     def translate(self):
-        self.header()
         body = [c for c in self.decl["inner"] if c.get("kind") == "CompoundStmt"][0]
+        self.ptr_types = {}
+        self.prescan_mutable(body)
+        self.header()
+        self.body = ""
         ss = self.stmt(body, True)
         for v in self.null_params:
             self.params.append(v)
-        pre = ['.declArr "%s" [%s]' % (g, ", ".join(str(v) for v in vals)) for g, vals in self.global_arrays]
-        self.body = self.block(pre + ss)
+        pre = ['.declArr "%s" [%s]' % (g, fmt_vals(vals)) for g, vals in self.global_arrays]
+        self.body = self.block(pre + self.init_stmts + ss)
         return self
+
+
+def fmt_vals(vals):
+    """long tables are written with explicit constructors (numerals of type Int elaborate slowly in bulk)"""
+    if len(vals) <= 64:
+        return ", ".join(str(v) for v in vals)
+    return ", ".join((".ofNat %d" % v) if v >= 0 else (".negSucc %d" % (-v - 1)) for v in vals)
 
 
 def indent(s, n=2):
@@ -909,112 +1642,200 @@ def par(s):
     return s if s in (".skip", ".brk", ".abort") else "(" + s + ")"
 
 
+def shape_trivial(shape):
+    return not shape or all((not e[0]) and all(r < 0 and not p for r, p in e[1]) for e in shape)
+
+
+def shape_suffix(shape):
+    if shape_trivial(shape):
+        return ""
+    parts = []
+    for off, arrs in shape:
+        s = "o" if off else "n"
+        for r, p in arrs:
+            if r >= 0:
+                s += "m%d" % r
+            elif p:
+                s += "p"
+            elif len(arrs) > 1:
+                s += "x"
+        parts.append(s)
+    return "__" + "_".join(parts)
+
+
 class Unit:
     """one source file under one preprocessor configuration"""
 
     def __init__(self, rel, variant, path=None):
         self.rel, self.variant = rel, variant
         self.path = path or os.path.join(SRC, rel)
-        self.funs = {}
         self.notes = set()
-        self.stack = []
+        self._ast = None
 
-    def function(self, name, node=None, caller=None):
-        if name in self.funs:
-            return self.funs[name]
-        if name in self.stack:
+    @property
+    def ast(self):
+        if self._ast is None:
+            self._ast = clang_ast(self.path, self.variant, self.rel)
+        return self._ast
+
+
+class World:
+    """all functions translated under one preprocessor configuration (callees may live in other files)"""
+
+    def __init__(self, variant, src_override, table):
+        self.variant, self.src_override, self.table = variant, src_override or {}, table
+        self.units, self.funs, self.stack, self.origin = {}, {}, [], {}
+
+    def unit(self, rel):
+        if rel not in self.units:
+            self.units[rel] = Unit(rel, self.variant, self.src_override.get(rel))
+        return self.units[rel]
+
+    def find_decl(self, name, unit):
+        for nm in (name, "_sodium_" + name):
+            if nm in unit.ast.funcs:
+                return unit.ast.funcs[nm], unit
+        for rel in SEARCH_FILES.get(name, []):
+            u = self.unit(rel)
+            for nm in (name, "_sodium_" + name):
+                if nm in u.ast.funcs:
+                    return u.ast.funcs[nm], u
+        return None, None
+
+    def base_spec(self, name):
+        return self.table.get(name) or CALLEE_SPECS.get(name) or dict(pub=[], pubarr=[], ret=False)
+
+    def function(self, name, shape, decl, dunit, node=None, caller=None):
+        clone = name + shape_suffix(shape)
+        if clone in self.funs:
+            if self.origin[clone] != dunit.rel and name not in SEARCH_FILES:
+                # two static functions of the same name in two files: they must translate identically
+                f2 = FunTr(self, dunit, decl, name, clone, None if shape_trivial(shape) else shape, self.base_spec(name)).translate()
+                if lean_fun(f2) != lean_fun(self.funs[clone]):
+                    raise Refuse("two different functions named %s (%s, %s) in one program" % (name, self.origin[clone], dunit.rel))
+            return self.funs[clone]
+        if clone in self.stack:
             raise Refuse("recursive call of %s" % name)
-        d = find_def(self.path, name, self.variant, self.rel)
-        if d is None:
-            if caller:
-                caller.refuse("call of `%s`, which has no body in this file" % name, node)
-            raise Refuse("function %s not found in %s [%s] (renamed, removed, or compiled out)" % (name, self.rel, self.variant))
-        self.stack.append(name)
+        self.stack.append(clone)
         try:
-            f = FunTr(self, d, name).translate()
+            f = FunTr(self, dunit, decl, name, clone, None if shape_trivial(shape) else shape, self.base_spec(name)).translate()
         finally:
             self.stack.pop()
-        self.funs[name] = f
+        self.funs[clone] = f
+        self.origin[clone] = dunit.rel
         return f
 
+    def entry(self, rel, fn):
+        u = self.unit(rel)
+        decl, du = self.find_decl(fn, u)
+        if decl is None or du is not u:
+            raise Refuse("function %s not found in %s [%s] (renamed, removed, or compiled out)" % (fn, rel, self.variant))
+        return self.function(fn, None, decl, u)
 
-def closure(unit, name):
-    out, todo = [], [name]
-    while todo:
-        f = todo.pop(0)
-        if f in out:
-            continue
-        out.append(f)
-        todo += unit.funs[f].callees
-    return out
+    def closure(self, name):
+        out, todo = [], [name]
+        while todo:
+            f = todo.pop(0)
+            if f in out:
+                continue
+            out.append(f)
+            todo += self.funs[f].callees
+        return out
+
+    def notes(self):
+        return set().union(*[u.notes for u in self.units.values()]) if self.units else set()
 
 
-def lean_fun(f, suffix=""):
-    return 'def fn_%s%s : Fun :=\n  { name := "%s"\n    params := [%s]\n    arrParams := [%s]\n    body :=\n%s }\n' % (
-        f.name, suffix, f.name, ", ".join('"%s"' % p for p in f.params), ", ".join('"%s"' % p for p in f.arr_params), indent(f.body, 6))
+def lean_fun(f, leanname=None):
+    return 'def fn_%s : Fun :=\n  { name := "%s"\n    params := [%s]\n    arrParams := [%s]\n    body :=\n%s }\n' % (
+        leanname or f.clone, f.clone, ", ".join('"%s"' % p for p in f.params), ", ".join('"%s"' % p for p in f.arr_params), indent(f.body, 6))
 
 
-def spec_of(name, table):
-    if name in table:
-        t = table[name]
-    elif name in CALLEE_SPECS:
-        t = CALLEE_SPECS[name]
-    else:
-        raise Refuse("no secret/public labelling for the callee %s in tools/c2minic.py (CALLEE_SPECS)" % name)
+def spec_str(name, t):
     return '("%s", ⟨[%s], [%s], %s⟩)' % (name, ", ".join('"%s"' % p for p in t["pub"]), ", ".join('"%s"' % p for p in t["pubarr"]), "true" if t["ret"] else "false")
 
 
-def same_as_portable(un, unit, rel, fn):
-    up = unit(rel, "portable")
-    up.function(fn)
-    return closure(un, fn) == closure(up, fn) and all(lean_fun(un.funs[g]) == lean_fun(up.funs[g]) for g in closure(un, fn))
+def select_variants(t, world_of):
+    """the configurations a target is translated from: the native one (or, for targets with an assembly / intrinsics fast
+       path, the first of noasm / portable that is C), plus `portable` when its code differs"""
+    fn, rel = t["fn"], t["file"]
+    native_err, w = None, None
+    try:
+        w = world_of("native")
+        w.entry(rel, fn)
+    except Refuse as e:
+        if not t.get("asm"):
+            raise
+        native_err, w = str(e), None
+    note = None
+    if w is None:
+        try:
+            wa = world_of("noasm")
+            wa.entry(rel, fn)
+            alt = ("noasm", wa)
+        except Refuse:
+            wp = world_of("portable")
+            wp.entry(rel, fn)
+            alt = ("portable", wp)
+        note = ("%s: the native x86-64 build has a fast path MiniC cannot express (%s); the C path of the `%s` configuration is translated"
+                % (fn, native_err.split(" (function")[0].replace("unsupported construct: ", ""), alt[0]))
+        variants = [(alt[0], alt[1], "")]
+        if t.get("big") and alt[0] != "portable":
+            wp = world_of("portable")
+            wp.entry(rel, fn)
+            if not same_code(alt[1], wp, fn):
+                variants.append(("portable", wp, "_portable"))
+    else:
+        wp = world_of("portable")
+        wp.entry(rel, fn)
+        if same_code(w, wp, fn):
+            variants = [("native = portable", w, "")]
+        else:
+            variants = [("native", w, ""), ("portable", wp, "_portable")]
+    return variants, note, native_err
+
+
+def same_code(w1, w2, fn):
+    c1, c2 = w1.closure(fn), w2.closure(fn)
+    return c1 == c2 and all(lean_fun(w1.funs[g]) == lean_fun(w2.funs[g]) for g in c1)
+
+
+KEEP_GOING = bool(os.environ.get("C2MINIC_KEEP_GOING"))     # development aid: report refused targets instead of stopping
+BIG_NS = "Sodium.Generated.MiniCBig"
+CHUNK = 90000      # characters of Lean source per generated function module
+NCHK = 14          # number of modules the per-function `checkFn` theorems are spread over (built in parallel)
 
 
 def generate(targets=None, src_override=None, only=None):
-    """-> (funs_text, obligations_text, report).  src_override: {rel: path} to translate a scratch copy."""
+    """-> dict(files = {module file name: text}, report, big = per-configuration data for stage 2)
+       src_override: {rel: path} to translate a scratch copy."""
     targets = targets or TARGETS
-    src_override = src_override or {}
     table = {t["fn"]: t for t in targets}
-    units = {}
+    worlds = {}
 
-    def unit(rel, variant):
-        if (rel, variant) not in units:
-            units[(rel, variant)] = Unit(rel, variant, src_override.get(rel))
-        return units[(rel, variant)]
+    def world_of(v):
+        if v not in worlds:
+            worlds[v] = World(v, src_override, table)
+        return worlds[v]
     defs, obls, report, header_notes = [], [], [], []
     emitted = {}
+    bigdefs = {}          # lean name -> text           (namespace MiniCBig)
+    bigprog = {}          # world key -> [(clone, lean name)]
+    bigtargets = []
+    refused = []
     for t in targets:
         if only and t["fn"] not in only:
             continue
         fn, rel = t["fn"], t["file"]
-        native_err = None
-        un = None
         try:
-            un = unit(rel, "native")
-            un.function(fn)
+            variants, note, native_err = select_variants(t, world_of)
         except Refuse as e:
-            if not t.get("asm"):
+            if not KEEP_GOING:
                 raise
-            native_err, un = str(e), None
-        if un is None:
-            # fall back to the C path compiled when the assembly / intrinsics are configured out:
-            # first `noasm` (keeps HAVE_TI_MODE: 64-bit limbs), then `portable`
-            alt = None
-            try:
-                ua = unit(rel, "noasm")
-                ua.function(fn)
-                alt = ("noasm", ua)
-            except Refuse:
-                up = unit(rel, "portable")
-                up.function(fn)
-                alt = ("portable", up)
-            variants = [(alt[0], alt[1], "")]
-            header_notes.append("%s: the native x86-64 build has a fast path MiniC cannot express (%s); the C path of the `%s` configuration is translated"
-                                % (fn, native_err.split(" (function")[0].replace("unsupported construct: ", ""), alt[0]))
-        elif same_as_portable(un, unit, rel, fn):
-            variants = [("native = portable", un, "")]
-        else:
-            variants = [("native", un, ""), ("portable", unit(rel, "portable"), "_portable")]
+            refused.append((fn, str(e)))
+            continue
+        if note:
+            header_notes.append(note)
         # the configuration each function is translated from is PINNED (tools/minic_variants.json): when a change to the source makes the
         # pinned configuration untranslatable, silently translating another configuration's (unchanged) code would accept the obligation
         # for code the build does not compile — refuse instead
@@ -1023,57 +1844,191 @@ def generate(targets=None, src_override=None, only=None):
         if pinned is not None and pinned != vlabel:
             raise Refuse("`%s` was translated from the `%s` configuration; with the current source only `%s` can be translated%s" % (
                 fn, pinned, vlabel, (" (" + native_err[:300] + ")") if native_err else ""))
-        for vname, u, suffix in variants:
-            cl = closure(u, fn)
-            for g in cl:
-                txt = lean_fun(u.funs[g], suffix)
-                if (g, suffix) in emitted:
-                    if emitted[(g, suffix)] != txt:
-                        raise Refuse("internal: two different translations of %s under the same name" % g)
-                    continue
-                emitted[(g, suffix)] = txt
-                defs.append("/-- %s : `%s` [%s configuration] -/\n%s" % (rel, g, vname, txt))
-            f = u.funs[fn]
+        for vname, w, suffix in variants:
+            cl = w.closure(fn)
+            f = w.funs[fn]
             for p in t["pub"]:
                 if p not in f.params:
                     raise Refuse("the label table names `%s` as a public scalar parameter of %s, but its parameters are now %s" % (p, fn, f.params))
             for p in t["pubarr"]:
                 if p not in f.arr_params and p not in [g[0] for g in f.global_arrays]:
                     raise Refuse("the label table names `%s` as a public array of %s, but its arrays are now %s" % (p, fn, f.arr_params))
-            defs.append("def prog_%s%s : Program := [%s]\n" % (fn, suffix, ", ".join("fn_%s%s" % (g, suffix) for g in cl)))
-            specs = "[" + ", ".join(spec_of(g, table) for g in cl) + "]"
-            sec_s = [p for p in f.params if p not in t["pub"]]
-            sec_a = [p for p in f.arr_params if p not in t["pubarr"]]
+            sp = f.spec()
+            sec_s = [p for p in f.params if p not in sp["pub"]]
+            sec_a = [p for p in f.arr_params if p not in sp["pubarr"]]
             doc = "`%s` (%s, %s): SECRET scalars %s, SECRET array contents %s; PUBLIC scalars %s, PUBLIC array contents %s; result %s" % (
-                fn, rel, vname, sec_s, sec_a, t["pub"], t["pubarr"], "PUBLIC" if t["ret"] else "SECRET")
+                fn, rel, vname, sec_s, sec_a, sp["pub"], sp["pubarr"], "PUBLIC" if sp["ret"] else "SECRET")
             N = fn + suffix
-            obls.append(("def specs_{N} : Ctx := {specs}\ndef spec_{N} : Spec := {spec}\n\n"
-                         "/-- the checker accepts {doc} -/\ntheorem ct_{N} : ctCheck prog_{N} \"{fn}\" specs_{N} = true := by decide +kernel\n\n"
-                         "/-- non-interference of the leakage trace of {doc} -/\ntheorem ni_{N} : NonInterferent prog_{N} fn_{N} spec_{N} :=\n"
-                         "  soundness ct_{N} (by decide +kernel) (by decide +kernel)\n").format(
-                             N=N, fn=fn, specs=specs, spec=spec_of(fn, table).split(", ", 1)[1][:-1], doc=doc))
-            report.append(dict(fn=fn, file=rel, variant=vname, theorem="ct_" + N, callees=cl[1:]))
-    notes = sorted(set().union(*[u.notes for u in units.values()])) if units else []
+            if not t.get("big"):
+                for g in cl:
+                    txt = lean_fun(w.funs[g], g + suffix)
+                    if (g, suffix) in emitted:
+                        if emitted[(g, suffix)] != txt:
+                            raise Refuse("internal: two different translations of %s under the same name" % g)
+                        continue
+                    emitted[(g, suffix)] = txt
+                    defs.append("/-- %s : `%s` [%s configuration] -/\n%s" % (w.origin[g], g, vname, txt))
+                defs.append("def prog_%s%s : Program := [%s]\n" % (fn, suffix, ", ".join("fn_%s%s" % (g, suffix) for g in cl)))
+                specs = "[" + ", ".join(spec_str(g, w.funs[g].spec()) for g in cl) + "]"
+                obls.append(("def specs_{N} : Ctx := {specs}\ndef spec_{N} : Spec := {spec}\n\n"
+                             "/-- the checker accepts {doc} -/\ntheorem ct_{N} : ctCheck prog_{N} \"{fn}\" specs_{N} = true := by decide +kernel\n\n"
+                             "/-- non-interference of the leakage trace of {doc} -/\ntheorem ni_{N} : NonInterferent prog_{N} fn_{N} spec_{N} :=\n"
+                             "  soundness ct_{N} (by decide +kernel) (by decide +kernel)\n").format(
+                                 N=N, fn=fn, specs=specs, spec=spec_str(fn, sp).split(", ", 1)[1][:-1], doc=doc))
+                report.append(dict(fn=fn, file=rel, variant=vname, theorem="ct_" + N, ni="Sodium.Generated.MiniC.ni_" + N, callees=cl[1:]))
+                continue
+            # ---- large programs: one program per configuration, explicit context (stage 2), one check per function
+            wk = w.variant
+            prog = bigprog.setdefault(wk, [])
+            have = dict(prog)
+            for g in cl:
+                if g in have:
+                    continue
+                base = lean_fun(w.funs[g], "@@")
+                ln = None
+                for cand in (g, g + "_" + wk):
+                    if cand not in bigdefs or bigdefs[cand][0] == base:
+                        ln = cand
+                        break
+                if ln is None:
+                    raise Refuse("internal: cannot name the translation of %s [%s]" % (g, wk))
+                if ln not in bigdefs:
+                    bigdefs[ln] = (base, "/-- %s : `%s` [%s configuration] -/\n%s" % (w.origin[g], g, wk, lean_fun(w.funs[g], ln)))
+                prog.append((g, ln))
+            bigtargets.append(dict(fn=fn, N=N, world=wk, vname=vname, doc=doc, spec=sp, rel=rel))
+            report.append(dict(fn=fn, file=rel, variant=vname, theorem="ni_" + N, ni=BIG_NS + ".ni_" + N, callees=cl[1:]))
+    notes = sorted(set().union(*[w.notes() for w in worlds.values()])) if worlds else []
     hdr = ("/-\n  GENERATED by tools/c2minic.py from the current source under %s — do not edit.\n"
            "  MiniC translations of libsodium's constant-time leaf helpers (see the translator's docstring for the\n"
            "  normalisations it performs).\n%s%s-/\n") % (SRC, "".join("  * " + h + "\n" for h in header_notes), "".join("  * " + h + "\n" for h in notes))
-    funs_text = "import SodiumModel.MiniC.Syntax\n" + hdr + "open MiniC\nnamespace Sodium.Generated.MiniC\n\n" + "\n".join(defs) + "\nend Sodium.Generated.MiniC\n"
-    obl_text = ("import Generated.MiniCFuns\nimport SodiumModel.MiniC.Soundness\n/-\n  GENERATED by tools/c2minic.py — do not edit.\n"
+    files = {}
+    files["MiniCFuns.lean"] = "import SodiumModel.MiniC.Syntax\n" + hdr + "open MiniC\nnamespace Sodium.Generated.MiniC\n\n" + "\n".join(defs) + "\nend Sodium.Generated.MiniC\n"
+    # function modules of the large programs
+    chunks, cur, size = [], [], 0
+    for ln in bigdefs:
+        txt = bigdefs[ln][1]
+        if cur and size + len(txt) > CHUNK:
+            chunks.append(cur)
+            cur, size = [], 0
+        cur.append(txt)
+        size += len(txt)
+    if cur:
+        chunks.append(cur)
+    for i, c in enumerate(chunks):
+        files["MiniCBigF_%d.lean" % i] = ("import SodiumModel.MiniC.Syntax\n/- GENERATED by tools/c2minic.py — do not edit. -/\nset_option maxRecDepth 100000\nopen MiniC\nnamespace %s\n\n" % BIG_NS
+                                          + "\n".join(c) + "\nend %s\n" % BIG_NS)
+    big = "".join("import Generated.MiniCBigF_%d\n" % i for i in range(len(chunks))) + "import SodiumModel.MiniC.CtCheck\n" + hdr + "open MiniC\nnamespace %s\n\n" % BIG_NS
+    for wk, prog in bigprog.items():
+        w = worlds[wk]
+        big += "/-- every function translated from the `%s` configuration (entry points and their transitive callees) -/\ndef progAll_%s : Program := [\n  %s]\n\n" % (
+            wk, wk, ",\n  ".join("fn_" + ln for _, ln in prog))
+        big += "/-- the parameter labelling of each of them -/\ndef specsAll_%s : Ctx := [\n  %s]\n\n" % (wk, ",\n  ".join(spec_str(g, w.funs[g].spec()) for g, _ in prog))
+    for bt in bigtargets:
+        big += "def spec_%s : Spec := %s\n" % (bt["N"], spec_str(bt["fn"], bt["spec"]).split(", ", 1)[1][:-1])
+    big += "\nend %s\n" % BIG_NS
+    files["MiniCBig.lean"] = big
+    obl_text = ("import Generated.MiniCFuns\nimport SodiumModel.MiniC.Soundness\n@@BIGIMPORT@@/-\n  GENERATED by tools/c2minic.py — do not edit.\n"
                 "  Kernel-checked obligations: the MiniC constant-time checker accepts every function translated from the\n"
                 "  current source under the secret/public labelling of the translator's table, and the instantiated\n"
-                "  non-interference corollaries (MiniC.soundness).\n-/\nopen MiniC\nnamespace Sodium.Generated.MiniC\n\n" + "\n".join(obls) + "\nend Sodium.Generated.MiniC\n")
-    return funs_text, obl_text, report
+                "  non-interference corollaries (MiniC.soundness / MiniC.soundness_ctx).\n-/\nopen MiniC\nnamespace Sodium.Generated.MiniC\n\n" + "\n".join(obls) + "\nend Sodium.Generated.MiniC\n")
+    files["MiniCObligations.lean"] = obl_text
+    return dict(files=files, report=report, bigprog=bigprog, bigtargets=bigtargets, worlds=worlds, refused=refused)
 
 
-def emit(lean_dir, **kw):
-    f, o, rep = generate(**kw)
+INFER_TMPL = """import Generated.MiniCBig
+import SodiumModel.MiniC.CtCheck
+open MiniC %s
+def showL (l : List String) : String := "[" ++ ", ".intercalate (l.map (fun s => "\\"" ++ s ++ "\\"")) ++ "]"
+def showEnv (e : Env) : String := "⟨" ++ showL e.pubVars ++ ", " ++ showL e.pubArrs ++ ", " ++ toString e.retPub ++ "⟩"
+def showCtx (c : Ctx) : String := "[\\n  " ++ ",\\n  ".intercalate (c.map fun p => "(\\"" ++ p.1 ++ "\\", " ++ showEnv p.2 ++ ")") ++ "]"
+"""
+
+
+def stage2(lean_dir, gen):
+    """large programs: compute the inferred contexts OUTSIDE the kernel (`#eval inferCtx`, untrusted) and emit the per-function checks"""
+    files = {}
+    bigprog, bigtargets = gen["bigprog"], gen["bigtargets"]
+    if not bigprog:
+        gen["files"]["MiniCObligations.lean"] = gen["files"]["MiniCObligations.lean"].replace("@@BIGIMPORT@@", "")
+        return files
+    p = subprocess.run(["lake", "build", "+Generated.MiniCBig"], cwd=lean_dir, capture_output=True, text=True)
+    if p.returncode != 0:
+        raise Refuse("internal: the generated function modules do not elaborate: " + (p.stdout + p.stderr)[-2500:])
+    src = INFER_TMPL % BIG_NS + "".join('#eval IO.println ("def ctxAll_%s : Ctx := " ++ showCtx (inferCtx progAll_%s specsAll_%s))\n' % (wk, wk, wk) for wk in bigprog)
+    sf = os.path.join(lean_dir, "Generated", ".infer.lean")
+    open(sf, "w").write(src)
+    p = subprocess.run(["lake", "env", "lean", sf], cwd=lean_dir, capture_output=True, text=True)
+    os.unlink(sf)
+    if p.returncode != 0 or "def ctxAll_" not in p.stdout:
+        raise Refuse("internal: label inference script failed: " + (p.stdout + p.stderr)[-2000:])
+    files["MiniCBigCtx.lean"] = ("import Generated.MiniCBig\nimport SodiumModel.MiniC.SoundnessCtx\n/- GENERATED by tools/c2minic.py — do not edit.\n"
+                                 "   Labels of the locals of every function, as computed by `inferCtx` OUTSIDE the kernel (untrusted:\n"
+                                 "   `checkFn` re-checks every function under them, `entryOK` compares them with the parameter labelling). -/\n"
+                                 "open MiniC\nnamespace %s\n\n%s\nend %s\n" % (BIG_NS, p.stdout, BIG_NS))
+    worlds = gen["worlds"]
+    items = []
+    for wk, prog in bigprog.items():
+        for g, ln in prog:
+            items.append((len(worlds[wk].funs[g].body), wk, g, ln))
+    items.sort(reverse=True)
+    bins = [[] for _ in range(min(NCHK, max(1, len(items))))]
+    load = [0] * len(bins)
+    for sz, wk, g, ln in items:
+        i = load.index(min(load))
+        bins[i].append((wk, g, ln))
+        load[i] += sz + 2000
+    for i, b in enumerate(bins):
+        files["MiniCBigChk_%d.lean" % i] = (
+            "import Generated.MiniCBigCtx\n/- GENERATED by tools/c2minic.py — do not edit.  One kernel-checked `checkFn` per translated function. -/\n"
+            "set_option maxRecDepth 100000\nopen MiniC\nnamespace %s\n\n" % BIG_NS +
+            "".join("theorem chk_%s_%s : checkFn progAll_%s ctxAll_%s fn_%s = true := by decide +kernel\n" % (wk, ln, wk, wk, ln) for wk, g, ln in b) +
+            "\nend %s\n" % BIG_NS)
+    o = "\nnamespace %s\n\n" % BIG_NS
+    for wk, prog in bigprog.items():
+        term = "allOK_nil _ _"
+        for g, ln in reversed(prog):
+            term = "allOK_cons chk_%s_%s (%s)" % (wk, ln, term)
+        # build the nested term iteratively as a `have` chain to keep the elaborator's recursion shallow
+        o += "/-- every function of the `%s` program checks under the supplied labelling -/\ntheorem checkProg_%s : checkProg progAll_%s ctxAll_%s = true := by\n  rw [checkProg_eq_allOK]\n  unfold progAll_%s\n" % (wk, wk, wk, wk, wk)
+        o += "".join("  refine allOK_cons chk_%s_%s ?_\n" % (wk, ln) for g, ln in prog) + "  exact allOK_nil _ _\n\n"
+    for bt in bigtargets:
+        wk, N, fn = bt["world"], bt["N"], bt["fn"]
+        ln = dict(bigprog[wk])[fn]
+        o += ("/-- non-interference of the leakage trace of {doc} -/\ntheorem ni_{N} : NonInterferent progAll_{wk} fn_{ln} spec_{N} :=\n"
+              "  soundness_ctx (f := \"{fn}\") (Γ := ((ctxAll_{wk}).lookup \"{fn}\").getD secretSpec) checkProg_{wk} rfl (by decide +kernel) (by decide +kernel)\n\n").format(
+                  doc=bt["doc"], N=N, wk=wk, ln=ln, fn=fn)
+    o += "end %s\n" % BIG_NS
+    imp = "import SodiumModel.MiniC.SoundnessCtx\n" + "".join("import Generated.MiniCBigChk_%d\n" % i for i in range(len(bins)))
+    gen["files"]["MiniCObligations.lean"] = gen["files"]["MiniCObligations.lean"].replace("@@BIGIMPORT@@", imp) + o
+    return files
+
+
+def write_files(lean_dir, files, clean=False):
     g = os.path.join(lean_dir, "Generated")
     os.makedirs(g, exist_ok=True)
-    for name, txt in (("MiniCFuns.lean", f), ("MiniCObligations.lean", o)):
+    if clean:
+        for f in os.listdir(g):
+            if re.match(r"^MiniCBig(F|Chk)_\d+\.lean$", f) and f not in files:
+                os.unlink(os.path.join(g, f))
+    for name, txt in files.items():
         p = os.path.join(g, name)
         if not os.path.exists(p) or open(p).read() != txt:
             open(p, "w").write(txt)
-    return rep
+
+
+def emit(lean_dir, **kw):
+    gen = generate(**kw)
+    pre = {k: v for k, v in gen["files"].items() if k != "MiniCObligations.lean"}
+    g = os.path.join(lean_dir, "Generated")
+    os.makedirs(g, exist_ok=True)
+    for f in os.listdir(g):
+        if re.match(r"^MiniCBig(F|Chk)_\d+\.lean$", f) and f not in pre:
+            os.unlink(os.path.join(g, f))
+    write_files(lean_dir, pre)
+    s2 = stage2(lean_dir, gen)
+    write_files(lean_dir, s2)
+    write_files(lean_dir, {"MiniCObligations.lean": gen["files"]["MiniCObligations.lean"]})
+    return gen["report"]
 
 
 def run_tie(lean_dir, src_override=None, examples=True):
@@ -1090,10 +2045,11 @@ def run_tie(lean_dir, src_override=None, examples=True):
     if p.returncode == 0:
         return dict(status="ok", failed=[], translated=rep, log="")
     failed = []
-    for fname in ("MiniCObligations.lean", "MiniCExamples.lean"):
-        path = os.path.join(lean_dir, "Generated", fname)
-        if not os.path.exists(path):
+    gdir = os.path.join(lean_dir, "Generated")
+    for fname in sorted(os.listdir(gdir)):
+        if not re.match(r"^MiniC.*\.lean$", fname):
             continue
+        path = os.path.join(gdir, fname)
         src = open(path).read().split("\n")
         for m in re.finditer(r"Generated/%s:(\d+):\d+: " % re.escape(fname), out):
             ln = int(m.group(1))
@@ -1115,7 +2071,7 @@ def main(argv):
     ap.add_argument("--src", action="append", default=[], metavar="REL=PATH", help="translate PATH instead of /repo/src/libsodium/REL (mutation self-test)")
     ap.add_argument("--inc", action="append", default=[], metavar="DIR", help="include directory searched first (scratch copy of include/sodium for header mutations)")
     ap.add_argument("--only", action="append", default=[], help="restrict to these target functions")
-    ap.add_argument("--stdout", action="store_true", help="print the generated function file instead of writing")
+    ap.add_argument("--stdout", action="store_true", help="print the generated function files instead of writing")
     ap.add_argument("--check", action="store_true", help="after writing, run `lake build +Generated.MiniCObligations +Generated.MiniCExamples`; exit 1 naming the obligations that fail")
     a = ap.parse_args(argv)
     ov = dict(s.split("=", 1) for s in a.src)
@@ -1132,8 +2088,9 @@ def main(argv):
         return 0
     try:
         if a.stdout:
-            f, o, rep = generate(src_override=ov, only=a.only)
-            sys.stdout.write(f + "\n" + o)
+            gen = generate(src_override=ov, only=a.only)
+            for k, v in gen["files"].items():
+                sys.stdout.write("-- ==== %s\n%s\n" % (k, v))
         else:
             rep = emit(a.lean, src_override=ov, only=a.only)
             for r in rep:
